@@ -12,1492 +12,525 @@ Definition show_fres (r : fres) : string :=
   end.
 Definition check (rs : list rune) : string := digest (show_fres (format_res rs)).
 Definition full (rs : list rune) : string := show_fres (format_res rs).
-Eval vm_compute in ("<<<M3657>>>" ++ check (runes_of_ascii "options {
-    ArrayPrefixLenType = u16;
-    FixedStringPadFromLeft = true;
-    JavaPackage = ""com.example.msg"";
-    GoPackage = ""msg"";
-    GoModule = ""example.com/msg"";
-}
-MetaData Meta {
-    u32 SeqNum `sequence number`,
-    char[8] Symbol `symbol`,
-    zchar[5] ZSym `z symbol`,
-    string Note,
-    Symbol AltSymbol `alias of symbol`,
-    f64 Price,
-}
-packet Inner {
-    u8 a,
-    i16 b,
-    string c,
-}
-packet Inner2 {
-    u8 a2,
-    char[3] c2,
-}
-packet Logon {
-    u8 x,
-    string user,
-    repeat u16 codes,
-}
-packet Logout {
-    u16 reason,
-}
-packet Empty {
-}
-root packet Msg {
-    u8 su8,
-    uint8 luint8,
-    u16 su16,
-    uint16 luint16,
-    u32 su32,
-    uint32 luint32,
-    u64 su64,
-    uint64 luint64,
-    i8 si8,
-    int8 lint8,
-    i16 si16,
-    int16 lint16,
-    i32 si32,
-    int32 lint32,
-    i64 si64,
-    int64 lint64,
-    f32 sf32,
-    float32 lfloat32,
-    f64 sf64,
-    float64 lfloat64,
-    char[6] fsplain,
-    @leftPad('0') char[4] fs0,
-    @rightPad('0') char[5] fs1,
-    @leftPad(' ') char[6] fs2,
-    @rightPad(' ') char[7] fs3,
-    @leftPad('\x00') char[8] fs4,
-    @rightPad('\x00') char[9] fs5,
-    @leftPad() char[10] fs6,
-    @rightPad() char[11] fs7,
-    zchar[7] fz,
-    @leftPad('0') zchar[3] fzl0,
-    string s1 `doc`,
-    char[] s2,
-    Inner,
-    Sub {
-        u8 q,
-        string w,
-        Deep {
-            u16 z,
-            repeat i32 zs,
-        },
-    },
-    repeat u8 ru8,
-    repeat u16 ru16,
-    repeat u32 ru32,
-    repeat u64 ru64,
-    repeat i8 ri8,
-    repeat i16 ri16,
-    repeat i32 ri32,
-    repeat i64 ri64,
-    repeat f32 rf32,
-    repeat f64 rf64,
-    repeat string rstr,
-    repeat char[] rstr2,
-    repeat char[3] rfs,
-    repeat zchar[3] rfz,
-    repeat Inner2,
-    repeat Grp {
-        u8 k,
-        char[2] v,
-    },
-    SeqNum,
-    SeqNum seq2,
-    repeat SeqNum seqs,
-    Symbol,
-    AltSymbol alt,
-    ZSym,
-    Note,
-    repeat Symbol syms,
-    Price px,
-    u16 MsgType,
-    u32 BodyLen @lengthOf(Body),
-    match MsgType as Body {
-        1 : Logon,
-        [2, 3] : Logout,
-        7 : Logon,
-        9 : Empty,
-    },
-    u32 Checksum @calculatedFrom(""CRC32""),
-}
-")).
-Eval vm_compute in ("<<<M4145>>>" ++ check (runes_of_ascii "
-packet zchar
-
-    /// triple
-    {
-    match calculatedFrom
-	as
-repeatCount{ [
-	""{,}""]
-: zchar 
-,
-00 :	Pad
-
+Eval vm_compute in ("<<<M28>>>" ++ check (runes_of_ascii "packet
+tag { repeat
+    //
+    T MetaDataX
+    , @calculatedFrom(
+//
+/// triple
+""`tick`""  ) @tag( 007 ) leftPad `tab	here` , @tag( 0123456789  )
+char x , @tag(0 ) u64 tag
     ,
-
-    0
-    : 
-pack
-, }	, 	 // @lengthOf(
-		f64
-
-    o
-
-    `" ++ [28040; 24687; 31867; 22411]%N ++ runes_of_ascii "` ,int32 f32a
-	@lengthOf(
-
-body )//
-  `
-`
-, 
-char[
-	3 
-]
-
-    chars  //	t
-  `crlf
-line` , }
-        // @lengthOf(
-
-	// packet A { u8 x, }
-
-  MetaData  metadata{
-string int
-
-, len lengthOf ,	}
-root  packet  A 
-{ 
-@tag( 0123456789
-)zchar[ 
-0123456789
-    ] BodyLength  // " ++ [27880; 37322]%N ++ runes_of_ascii "
-  	, @leftPad  (
-    '0')
-    @rightPad
-	(' '  //
-  ) zchar[
-    0123456789	] tag  `it's` 
-, 
-@tag(007
-
-) // trailing space 
-  	@tag(
-	7
-)
-    falsey
-	@calculatedFrom(""\" ++ [233]%N ++ runes_of_ascii """//
-	)
+i8 roots
+    // a // b
     ,
-@calculatedFrom( ""{,}""	)
-repeat Packet
-	,
     @lengthOf(
-    u  )	@calculatedFrom(""a\""b"" 
-      // a // b
-  // `tick` ""quote"" 'q'
-    ) @lengthOf(
-lengthOf)
-
-    char[]	uint8x,  @leftPad 
-(
-
-    '\x00')  // trailing space 
-	repeat T
-{i8i8	a1 
-,char[
-65535]	chars 
-`u8 x,` , Pad
-	,
-	}, @lengthOf(
-o
-
-)  u8
-x
-	, @calculatedFrom( // @lengthOf(
-	""a	b""	) lengthOf  //
-`// not a comment`
-	, 
-A
-
-    {repeat
-calculatedFrom
-
-matchKey ,	options1 @calculatedFrom( ""a	b"" ) ,// trailing space 
-    repeat	u
-
-`line1
-line2`
-,
-
-    }
-,
-	}
-
-    packet	i8i8
-
-{
-	} 
-packet 
-pack 
-{ zchar[
-0123456789	]
-leftPad
-	`
-`
-    ,
-
-@rightPad  ('\x00'
-	) repeat  int `" ++ [28040; 24687; 31867; 22411]%N ++ runes_of_ascii "`, match Packet
-as
-BodyLength  // @lengthOf(
-{
-
-[
-
-00  // a // b
-	  , 7]	//x
-:falsey } ,
-@tag(	00) repeat
-
-    zchar[
-
-    1
-
-]
-len // a // b
-
-  `u8 x,`,
-
-@leftPad
-
-    ( )rootA
-    //	t
-	//	t
-  @lengthOf(
-len ), @tag( 42 ) // `tick` ""quote"" 'q'
-    @lengthOf( i64_ ) repeat
-
-len{ x{Logon
-{ options1
-	Logon 
-,
-	}
-    ,	stringy	{	string body  @lengthOf( 
-tag  ) 
-,}
-
-, falsey
-
-falsey,
-
-    } //x
-
-, MetaDataX roots`// not a comment`
-
-,	}
-
-    , 
-}
-")).
-Eval vm_compute in ("<<<M1138>>>" ++ check (runes_of_ascii "packet T { @lengthOf(
-Foo ) @tag( 10 )@lengthOf(rootA )chars `it's`,repeat
-    char roots //	t
-,
-@tag(	0 ) match  charz as leftPad { 0 :tag
-,} , Z9_ // trailing space 
-u128 ,
-    int32 int@calculatedFrom(  ""\n""  ) , @lengthOf( int )	Z9_
-    // " ++ [27880; 37322]%N ++ runes_of_ascii "
-    {
-    repeat	char[] calculatedFrom`crlf
-line`
-,	zchar[0
-    ] o @calculatedFrom( ""\" ++ [233]%N ++ runes_of_ascii """ ) ,
-    u8x{_x
-, // @lengthOf(
-zchar[ 3 ] stringy @lengthOf( T) //	t
-,
-    // trailing space 
-    uint8
-body
-    , char[]falsey
+float ) @tag( 10 )
+// c
 // `tick` ""quote"" 'q'
-// @lengthOf(
-@calculatedFrom( ""// no comment"" ) `" ++ [233]%N ++ runes_of_ascii "` , /// triple
-}
+body { chars
+{repeat int8  body , }  , repeat Header {char[]
+    leftPad	, },	match  Logon as zchar  { 4294967296 :
+    len , ""a\""b"":A //
+00
+: x_y_z,
+} , repeat i16	options1
 , }
-    , @tag(
-1 )@calculatedFrom(""a\\""
-    )
-    // c
-    @rightPad(
-    '0')
-    i32 tag @calculatedFrom(
-    ""a\""b""
-) `crlf
-line` , match
-    BodyLength as	f32a
-    {[ 3
-    ,""`tick`"" , ""`tick`"" , 007 , ""1"" , 65535// " ++ [128512]%N ++ runes_of_ascii " emoji
-, //	t
-1	,  0
-] :
-Z9_ ,
-[ ""CRC32"" ,
-    ""a\\""
-] :
-chars
-,
-""a\""b""
-: roots , 1
-: f32a
-    , // " ++ [27880; 37322]%N ++ runes_of_ascii "
-}
-    , trueish{
-//
-/// triple
-zchar{ match Pad
-as tag {  [
-0123456789 , 00
-,
-    7,""a	b"" , // @lengthOf(
-""CRC32"" ] :
-    options1 ,
-    // @lengthOf(
-    } , pack  { zchar[ 10
-]
-    chars ,}	,u `crlf
-line`  , repeat // " ++ [27880; 37322]%N ++ runes_of_ascii "
-int32 _x `two words` ,  } , }, // trailing space 
-falsey
-    As , } options {falsey // " ++ [128512]%N ++ runes_of_ascii " emoji
-=
-    ""abc"" ; Foo=	false ; } root
-packet
-A { @lengthOf(uint8x ) match u8x as
-msg_type
-{ [
-007 , 00 ]: u128 , [	255 ,// a // b
-""{,}""
-    ,
-    10
-// " ++ [128512]%N ++ runes_of_ascii " emoji
-// " ++ [27880; 37322]%N ++ runes_of_ascii "
-, ""// no comment""	,""""  ,
-    """ ++ [128512]%N ++ runes_of_ascii """ ] :
-T ,255:string_ , ""`tick`"" :
-As
-},
-}MetaData chars
-{
-char[	65535 ]
-roots, i64 u128 , char[ 42]	pack // " ++ [128512]%N ++ runes_of_ascii " emoji
-,} //x")).
-Eval vm_compute in ("<<<M4404>>>" ++ check (runes_of_ascii "//x
-  packet Header{
-
-    body 
-// " ++ [27880; 37322]%N ++ runes_of_ascii "
-    // " ++ [27880; 37322]%N ++ runes_of_ascii "
-@calculatedFrom(
-	""CRC32"")
-
-    `it's` 
-, repeat
-
-    int64	//x
-    	msg_type // " ++ [128512]%N ++ runes_of_ascii " emoji
-
-	,
-//	t
-    //
-  @tag( 0)	zchar[
-
-    0	//
-  ]
-    int
-    //	t
-
+    , @calculatedFrom( """ ++ [128512]%N ++ runes_of_ascii """)@rightPad ( '0'
+) i16 Pad , //
+int64
+    As @lengthOf(
+crc ) , } MetaData x_y_z {u crc
+, } root packet
+Z9_{ @calculatedFrom( ""{,}"" ) tag, @lengthOf( lengthOf ) zchar[  42 ] crc //x
+`" ++ [233]%N ++ runes_of_ascii "`
+// a // b
 // @lengthOf(
-
-,
-}
-	// " ++ [128512]%N ++ runes_of_ascii " emoji
-  options
-    { Packet	=true
-
-    MetaDataX
-=
-    """ ++ [28040; 24687]%N ++ runes_of_ascii """
-A
-= 
-string	}
-root 
-packet
-    Logon
-
-{
-    @leftPad// " ++ [27880; 37322]%N ++ runes_of_ascii "
-		(	'0'  //x
-	)
-Header	//
-    leftPad `doc`
-,f32a  {
-rootA@lengthOf(calculatedFrom  )
-, int8
-Packet
-
+, char[ 007 ] options1 ,
+}packet
+    // `tick` ""quote"" 'q'
+    x {char	trueish
+    ,	char[] packetx @calculatedFrom(""" ++ [28040; 24687]%N ++ runes_of_ascii """)
     `line1
-line2`
-
-,  }, 
-repeat
-    calculatedFrom
-
-    { // `tick` ""quote"" 'q'
-
-match packetx 
-as len{
-
-1 :  matchKey	,
-
-0123456789
-	: repeatCount 
-,""\" ++ [233]%N ++ runes_of_ascii """
-: float
-
-    ,
-255
-
-:
-MetaDataX
-,} ,
-
-    } 
-,
-
-    //x
-// " ++ [27880; 37322]%N ++ runes_of_ascii "
-leftPad{
-
-repeat
-roots
-{  //	t
-roots@calculatedFrom( 	 /// triple
-""abc"" 
-) , int32	BodyLength
-@calculatedFrom(
-""packet""
-
-)
-    , } ,match
-	repeatCount
-as matchKey {""abc""
-:u128 ,	""" ++ [128512]%N ++ runes_of_ascii """ : a1  ,""a\\""	: rootA
-,[
-	3
-,3 
-]	// c
-
-	:
-    x_y_z 007
-    :  Foo	}
-
-    ,
-
-    }  ,// c
-		repeat
-rootA	matchKey `it's`	//	t
-	,a1
-
-    @calculatedFrom( ""x y""
-)	`line1
-line2` , int
-,	@tag( 
-
-// trailing space 
-  //x
-    65535
-
-    )
-	match
-
-    metadata as
-	As	{""x y""  :Foo,//x
-  [ // `tick` ""quote"" 'q'
-  ""x y""
-]  :
-tag 
-      //
-// a // b
-  , 
-3
-    :
-pack 
-}
-,
-    repeat
-int8
-charz
-
-, 
-char[]
-	body	,
-}
-    options {MetaDataX=
-char[ 0 ];
-}	// a // b
-")).
-Eval vm_compute in ("<<<M1189>>>" ++ check (runes_of_ascii "// " ++ [27880; 37322]%N ++ runes_of_ascii "
-packet a1
-    // " ++ [27880; 37322]%N ++ runes_of_ascii "
-    { @calculatedFrom( """ ++ [233]%N ++ runes_of_ascii "t" ++ [233]%N ++ runes_of_ascii """)Logon { options1
-falsey `// not a comment`, Z9_@calculatedFrom( ""packet"" ), int8
-    // trailing space 
-    Packet  `two words`
-// " ++ [128512]%N ++ runes_of_ascii " emoji
-// a // b
-,
-}
-, @tag(	007 )
-    char[] chars@lengthOf( Packet ) `crlf
-line` ,
-    match msg_type as Header { """ ++ [28040; 24687]%N ++ runes_of_ascii """ : _x //x
-}, repeat
-    //
-    u128  { Logon @calculatedFrom( ""it's"" ) `{ , }` , }
-// " ++ [128512]%N ++ runes_of_ascii " emoji
-// c
-,	int64
-calculatedFrom // c
-, repeat zchar[
-0
-    ] a1 `say ""hi""`
-    , match options1	as repeatCount
-{[
-    //x
-    ""1""
-, ""`tick`"" ,
-//
-// " ++ [128512]%N ++ runes_of_ascii " emoji
-10,
-""\" ++ [233]%N ++ runes_of_ascii """,0123456789 , ""a\""b"" ]
-    :pack,// @lengthOf(
-0123456789
-    // " ++ [128512]%N ++ runes_of_ascii " emoji
-    :
-    // packet A { u8 x, }
-    Logon
-, 255 :	x } ,
-@calculatedFrom( ""abc"" )@lengthOf(
-// packet A { u8 x, }
-// " ++ [128512]%N ++ runes_of_ascii " emoji
-x )
-    repeat
-Pad{ u8x
-{
-uint8	T @lengthOf(float )  ,match Header // `tick` ""quote"" 'q'
-as // a // b
-trueish { ""a	b"":
-    body//	t
-, }
-,int8 MetaDataX @calculatedFrom(
-    ""a	b"") ,	i8i8
-    Pad `" ++ [28040; 24687; 31867; 22411]%N ++ runes_of_ascii "`
-,} , repeat i8
-    //
-    A , // trailing space 
-}	,
-    uint32
-    x@lengthOf(
-Logon ) /// triple
-`two words`
-, } packet trueish { }MetaData
-    // @lengthOf(
-    msg_type
-    { } packet
-i8i8 {  @tag( 007)
-    //x
-    zchar[ 10
-    ] /// triple
-msg_type
-    , }
-")).
-Eval vm_compute in ("<<<M1068>>>" ++ check (runes_of_ascii "
-packet Packet{
-    @leftPad
-// a // b
-// a // b
-( ' ' )
-    repeat As{ repeatCount
-@calculatedFrom(""" ++ [28040; 24687]%N ++ runes_of_ascii """
-) ,	repeat pack { /// triple
-x {match As
-as uint8x  { [
-    ""1""
-, ""\" ++ [233]%N ++ runes_of_ascii """ , 00 ,""it's"",	""a\""b"" ,
-    ""\" ++ [233]%N ++ runes_of_ascii """
+line2` ,  zchar[
+1
+    ]
+    Foo // " ++ [128512]%N ++ runes_of_ascii " emoji
+, zchar[ 00 ]
+A , match msg_type as tag { """" : leftPad , [ """ ++ [128512]%N ++ runes_of_ascii """ ,
+    0 ,10
+    ,  3//	t
 ] :
-// " ++ [128512]%N ++ runes_of_ascii " emoji
-// packet A { u8 x, }
-pack[ ""a\""b"",""" ++ [233]%N ++ runes_of_ascii "t" ++ [233]%N ++ runes_of_ascii """
-    ,
-65535
-    ,	""a	b"" ,
-""`tick`"" ,
-//	t
-//x
-""\n""
-// " ++ [128512]%N ++ runes_of_ascii " emoji
-// packet A { u8 x, }
-]: As
-,
-0123456789  : float , /// triple
-""a	b"" :
-    x_y_z
-, [ ""abc"" ] :
-    stringy // trailing space 
-} ,  f64
-    MetaDataX ,zchar[
-0123456789 ] charz ,
-}, crc // trailing space 
-{ char[]x_y_z // c
-`
-`
-,	match Z9_
-    as i8i8	{  00	:
-// c
-//	t
-charz, } ,}	,	i8 // a // b
-_x
-,
-repeat falsey
-    {
-    // `tick` ""quote"" 'q'
-    char[
-65535 // a // b
-]
-    Packet @calculatedFrom(
-""x y""
-) `line1
-line2` ,	} ,}
-, f32a // packet A { u8 x, }
-MetaDataX
-    `" ++ [233]%N ++ runes_of_ascii "`
-, repeat//	t
-matchKey{int32
-int `crlf
-line`	,
-} ,} , float{ string	As
-`// not a comment` , As
-, stringy ,
-    } ,
-@tag( 00	) Foo ,	repeat int16	Z9_, @lengthOf(u8x )
-    u8x{ repeat	uint64 asx ,
-// packet A { u8 x, }
-//
-repeat int
-    // packet A { u8 x, }
-    `` , char[
-1 ] uint8x @calculatedFrom(
-    ""\" ++ [233]%N ++ runes_of_ascii """
-) ,
-    } ,  x , }
-")).
-Eval vm_compute in ("<<<M3854>>>" ++ check (runes_of_ascii "packet rootA {
-    metadata {
-        int32 body `doc`,
-        repeat calculatedFrom u8x,
-        u32 float,
-    },
-    @lengthOf(T)
-    u8x Header,
-    repeat u16 Z9_,
-    @leftPad('0')
-    repeat Z9_ {
-        stringy msg_type `
-        `,
-        As {
-            match i8i8 as chars {
-                10 : len,
-                [""abc"", 42, 7] : leftPad,
-                42 : lengthOf,
-                00 : zchar,
-                //x
-            },
-            i32 i64_,
-            repeat lengthOf msg_type ``,
-        },
-        int16 Packet @calculatedFrom(""packet""),
-    },
-    len @lengthOf(float) `two words`,
-    @calculatedFrom(""a\""b"")
-    repeat pack,
-    @tag(0)
-    float32 tag `tab	here`,
-    rootA @calculatedFrom(""// no comment""),
-    @lengthOf(x_y_z)
-    msg_type {
-        match crc as string_ {
-            0 : u8x,
-            10 : crc,
-            ""x y"" : Pad,
-            3 : a1,
-            007 : x,
-            [""""] : A,
-        },
-    },
-    @calculatedFrom(""CRC32"")
-    @rightPad(' ')
-    @tag(10)
-    match zchar as body {
-        65535 : tag,
-    },
-}")).
-Eval vm_compute in ("<<<M4225>>>" ++ check (runes_of_ascii "packet u128 {
-    @lengthOf(x_y_z)
-    @lengthOf(stringy)
-    @lengthOf(_x)
-    zchar[4294967296] asx @calculatedFrom(""\" ++ [233]%N ++ runes_of_ascii """) `
-        `,
-    char[0] matchKey,
-    rootA u128,
-    metadata metadata,
-    zchar[3] string_ `" ++ [233]%N ++ runes_of_ascii "`,
-    // `tick` ""quote"" 'q'
-    // " ++ [27880; 37322]%N ++ runes_of_ascii "
-    @calculatedFrom(""a	b"")
-    char roots `" ++ [28040; 24687; 31867; 22411]%N ++ runes_of_ascii "`,
-    repeat zchar[10] pack `
-        `,
-    @calculatedFrom(""{,}"")
-    @lengthOf(Foo)
-    packetx {
-        // " ++ [128512]%N ++ runes_of_ascii " emoji
-        match i8i8 as Header {
-            255 : Z9_,
-            """ ++ [233]%N ++ runes_of_ascii "t" ++ [233]%N ++ runes_of_ascii """ : tag,
-            [
-                7, 1, ""// no comment"", ""// no comment"", 3,
-                """", 1
-            ] : lengthOf,
-            3 : asx,
-            [42, 0, 1] : Z9_,
-            10 : A,
-        },
-    },
-}
-
-root packet T {
-    /// triple
-    int32 roots `two words`,
-    stringy,
-    @rightPad('\x00')
-    float64 len @lengthOf(o),
-    match body as uint8x {
-        10 : tag,
-    },
-    repeat u8 Pad `" ++ [28040; 24687; 31867; 22411]%N ++ runes_of_ascii "`,
-    repeat char[] float,
-    @calculatedFrom(""packet"")
-    u16 x @lengthOf(u8x),
-}//x")).
-Eval vm_compute in ("<<<M411>>>" ++ check (runes_of_ascii "packet zchar { @calculatedFrom( ""a\\""
-// @lengthOf(
-// " ++ [27880; 37322]%N ++ runes_of_ascii "
-)f32a`{ , }` , match // c
-calculatedFrom as pack {""" ++ [233]%N ++ runes_of_ascii "t" ++ [233]%N ++ runes_of_ascii """
-    // a // b
-    :As , 0123456789
+Z9_,  ""it's"":	float , 10 : calculatedFrom ""x y"" // @lengthOf(
 :
-i8i8 ,4294967296	:
-A , } ,
-//x
-// trailing space 
-i32
-    packetx `say ""hi""`, repeatCount
-// `tick` ""quote"" 'q'
-// " ++ [128512]%N ++ runes_of_ascii " emoji
-{
-//
-/// triple
-repeat falsey {rootA // c
-{ T Logon	`a\`,
-}
-,char[
-    007]
-// trailing space 
-// " ++ [27880; 37322]%N ++ runes_of_ascii "
-A // trailing space 
-, } , // trailing space 
-} ,
-repeat
-// " ++ [128512]%N ++ runes_of_ascii " emoji
-// " ++ [27880; 37322]%N ++ runes_of_ascii "
-Packet
-    {  int64
-    matchKey
-    ,
-}
-, // c
-string _x `crlf
-line` ,float
-    { repeat
-u8x {metadata@calculatedFrom( //
-""a\\"" )`it's`
-    ,
-}
-    , },
-@lengthOf( o
-)
-    @tag(
-00  ) @tag( 0123456789
-    )
-    // a // b
-    falsey {repeat asx `crlf
-line`, repeat // a // b
-o , }  ,@tag( 00)
-    match
-// `tick` ""quote"" 'q'
-// `tick` ""quote"" 'q'
-float
-    as Foo
-    { """ ++ [128512]%N ++ runes_of_ascii """ : tag , } , @tag(
-255 )	repeat i8i8 ,}// `tick` ""quote"" 'q'
-packet As { i8 a1@lengthOf( options1/// triple
-)	,}")).
-Eval vm_compute in ("<<<M544>>>" ++ check (runes_of_ascii "packet MetaDataX { @tag( 65535 )
-    match a1
-    as
-float
-{
-007 : Header } ,
-repeat char[65535
-    // " ++ [128512]%N ++ runes_of_ascii " emoji
-    ]pack , @lengthOf(Logon ) zchar[ 65535]metadata , char calculatedFrom , match roots as stringy
-{	""packet""
-: BodyLength// " ++ [128512]%N ++ runes_of_ascii " emoji
-,
-    [	""// no comment"" ] :tag , 0123456789 // " ++ [27880; 37322]%N ++ runes_of_ascii "
-:
-a1,	0 : roots ,  [
-""abc""	] :Header ,
-} ,
-repeat MetaDataX
-{ match Foo as lengthOf
-{
-    // a // b
-    ""CRC32""  :// " ++ [128512]%N ++ runes_of_ascii " emoji
-trueish }
-,
-match // @lengthOf(
-roots as metadata {	0 : body, } , u64	A ,
-    char[
-7]
-    Z9_,
-    //x
-    }
-    , Foo
-    { zchar[  10
-]roots @lengthOf( u8x// packet A { u8 x, }
-) `tab	here` // c
-,// trailing space 
-string_ crc ,u8x@lengthOf(	u128  )
-, }  ,
-@lengthOf(
-i8i8
-    )
-    // trailing space 
-    @calculatedFrom( ""abc""	) char[] // packet A { u8 x, }
-crc , @leftPad
-( ' ') @lengthOf(
-    // a // b
-    trueish // c
-) @lengthOf(  msg_type ) i8i8 asx	,
-    }")).
-Eval vm_compute in ("<<<M748>>>" ++ check (runes_of_ascii "MetaData	metadata{/// triple
-packetx Packet ,
-    // trailing space 
-    chars body , char[]MetaDataX ,u32
-    stringy ,float32
-packetx `" ++ [28040; 24687; 31867; 22411]%N ++ runes_of_ascii "` , }options {
-    lengthOf
-    = uint16 ; pack
-='0'
-; charz //x
-=
-char[]
-    ;	u // trailing space 
-= f64 ;
-    options1  = float32
-    ; }root // packet A { u8 x, }
-packet charz //x
-{ repeat
-uint32 float, stringy , // packet A { u8 x, }
-uint8x  {chars
-    { match Foo as u8x {""a\\"":
-int // a // b
-,
-    }
-    , string
-Z9_  @calculatedFrom(
-    // packet A { u8 x, }
-    """ ++ [28040; 24687]%N ++ runes_of_ascii """ ) `// not a comment` ,
-match trueish
-as MetaDataX {
-[ 0  ,  ""CRC32"" ,007
-    // a // b
-    ,007	, 0123456789 ] // packet A { u8 x, }
-: Foo
-    255 : falsey
-    , 007 :
-    _x 255 :
-    Header
-    007 :lengthOf""{,}""  : Header , } ,
-}
-, zchar[ 65535  ] leftPad `line1
-line2` , char[ 007
-] Z9_  @lengthOf(
-u8x  ) ,
-} , }
-")).
-Eval vm_compute in ("<<<M4218>>>" ++ check (runes_of_ascii "packet roots {
-}
-
-root packet metadata {
-    repeat float32 int,
-    _x @lengthOf(packetx) `
-        `,
-    repeat Packet Header,
-    @tag(0)
-    /// triple
-    float32 msg_type @calculatedFrom(""\" ++ [233]%N ++ runes_of_ascii """),
-    char[0] BodyLength,
-    len @calculatedFrom(""" ++ [28040; 24687]%N ++ runes_of_ascii """) `tab	here`,
-}
-
-root packet calculatedFrom {
-    @rightPad(' ')
-    tag @calculatedFrom(""// no comment""),
-    crc @calculatedFrom(""\" ++ [233]%N ++ runes_of_ascii """),
-    @lengthOf(u128)
-    @lengthOf(chars)
-    repeat lengthOf `tab	here`,
-    @tag(007)
-    char[] roots,
-    @calculatedFrom(""" ++ [233]%N ++ runes_of_ascii "t" ++ [233]%N ++ runes_of_ascii """)
-    repeat zchar[0] chars `crlf
-        line`,// `tick` ""quote"" 'q'
-    @calculatedFrom(""a\\"")
-    options1,
-    // " ++ [27880; 37322]%N ++ runes_of_ascii "
-    @rightPad()
-    Z9_ {
-        float32 x_y_z @lengthOf(asx),
-        repeat float32 asx,
-        f32 zchar `" ++ [28040; 24687; 31867; 22411]%N ++ runes_of_ascii "`,
-        char[007] Packet `a\`,
-    },
-}")).
-Eval vm_compute in ("<<<M1046>>>" ++ check (runes_of_ascii "// c
-packet
-i8i8{ } packet string_
-{  @rightPad ( '\x00'//x
-)
-    int Packet , // a // b
-@tag( 255 )
-matchKey , chars@calculatedFrom( ""packet"")
-`
-`	,  _x @lengthOf(u
-) , @tag(// c
-255 )asx Foo, string
-    roots ,	repeat
-    falsey {	matchKey { match Pad as
-i8i8 //x
-{ [ 00 , 7 ] : u , 1 : BodyLength , // a // b
-""// no comment""
-:	metadata ,
-""""
-// @lengthOf(
-//
-: BodyLength
-    /// triple
-    , } , }
-, A,
-repeat char falsey , } , // packet A { u8 x, }
-_x u `it's` ,
-@leftPad  (	'\x00')
-    @calculatedFrom(
-""\n""
-    )	match x_y_z as metadata { ""CRC32""
-: packetx // packet A { u8 x, }
-, ""packet""  :
-metadata 1
-    : string_// c
-, [ 0 , // " ++ [128512]%N ++ runes_of_ascii " emoji
-10 ]
-: // packet A { u8 x, }
-falsey // " ++ [27880; 37322]%N ++ runes_of_ascii "
-,} , char[] chars @lengthOf(zchar /// triple
-)`say ""hi""`	, } 	 ")).
-Eval vm_compute in ("<<<M1289>>>" ++ check (runes_of_ascii "packet string_
-    {A { // trailing space 
-zchar[1 ] // a // b
-len	,match leftPad	as metadata {
-    // " ++ [27880; 37322]%N ++ runes_of_ascii "
-    [
-    4294967296 ,
-    4294967296 , 00 , 1, ""{,}"" ,
-    007 /// triple
-, 7 ]
-: chars
-    /// triple
-    , 0
-: i64_
-    ,}, }
-    //	t
-    ,	uint8 charz`" ++ [233]%N ++ runes_of_ascii "`
-    // trailing space 
-    ,
-charz msg_type , @rightPad	(
-    ' '
-    )
-    @calculatedFrom( ""it's"" ) repeat a1
-`it's`
-, //x
-repeat Logon
-{ int o , metadata , zchar[
-    0] msg_type@calculatedFrom( """" ) , pack
-,} ,	@calculatedFrom(""it's"" )  char[
-    00 ] int `u8 x,`
-, i32
-charz
-`{ , }`,
-repeat f64 As `" ++ [28040; 24687; 31867; 22411]%N ++ runes_of_ascii "`
-/// triple
-// @lengthOf(
-,} MetaData //
-metadata
-{ string
-    falsey , }
-    packet o	{	float64 roots @lengthOf( body ) ,
-    //
-    }")).
-Eval vm_compute in ("<<<M1329>>>" ++ check (runes_of_ascii "packet
-leftPad
-{ @tag(
-1
-) i8 // a // b
-crc , float64 packetx `" ++ [233]%N ++ runes_of_ascii "` , lengthOf
-@lengthOf( charz
-    // trailing space 
-    ) , repeat
-    Packet ,	@lengthOf( u )  @lengthOf(// " ++ [27880; 37322]%N ++ runes_of_ascii "
-T )
-    repeat u16 uint8x `" ++ [28040; 24687; 31867; 22411]%N ++ runes_of_ascii "`,
-    zchar[  10
-]// a // b
-metadata ``
-    , match // packet A { u8 x, }
-trueish
-    as options1{0123456789
-: rootA
-    ,255: MetaDataX[""a\\"" ,/// triple
-""\n"",00
-, 10 ] : trueish ,	""CRC32"" :
-uint8x, 0 : Z9_ ,  ""1""// c
-: i8i8
-// `tick` ""quote"" 'q'
-// packet A { u8 x, }
-,} , @calculatedFrom( ""it's"" ) uint8 chars `
-` , } options
-    // @lengthOf(
-    {
     f32a
-= i16 ; // " ++ [128512]%N ++ runes_of_ascii " emoji
-u
-    = ""abc"" }MetaData chars{	i16 lengthOf , Packet msg_type
-    `crlf
-line` ,} // " ++ [27880; 37322]%N)).
-Eval vm_compute in ("<<<M3793>>>" ++ check (runes_of_ascii "packet float {
-    match asx as len {
-        255 : metadata,
-    },
-    char[4294967296] x @lengthOf(lengthOf),
-    matchKey int,
-}
-
-packet falsey {
-    @tag(0123456789)
-    match u128 as stringy {
-        // " ++ [128512]%N ++ runes_of_ascii " emoji
-        0123456789 : u128,
-        // packet A { u8 x, }
-        [3, ""CRC32"", 7, 10, 0] : o,
-        1 : charz,
-        0123456789 : u,
-        255 : pack,
-    },
-}
-
-packet T {
-    // " ++ [27880; 37322]%N ++ runes_of_ascii "
-    @lengthOf(Z9_)
-    @rightPad('0')
-    @calculatedFrom(""// no comment"")
-    zchar[007] leftPad,
-    @calculatedFrom(""1"")
-    char[] As `two words`,
-    @leftPad('0')
-    repeat char[0123456789] x `// not a comment`,
-    char[1] _x,
-}")).
-Eval vm_compute in ("<<<M906>>>" ++ check (runes_of_ascii "packet // trailing space 
-A
-{ @tag( 0
-)
-    string
-i8i8`a\`
-    // packet A { u8 x, }
-    , float64
-    x @lengthOf( Header // " ++ [128512]%N ++ runes_of_ascii " emoji
-) `tab	here` // @lengthOf(
-,zchar[
-    3 ]	lengthOf ,
-// packet A { u8 x, }
-// " ++ [27880; 37322]%N ++ runes_of_ascii "
-o msg_type `{ , }` ,
-    //x
-    Logon // c
-@lengthOf( i64_)
-,@leftPad (
-' ' ) repeat As
-// packet A { u8 x, }
-// @lengthOf(
-,  match
-    len as leftPad
-    {""x y"" :
-    repeatCount , """ ++ [28040; 24687]%N ++ runes_of_ascii """ :
-packetx , ""x y"" : u8x ,
-4294967296:
-Header ""a	b"": roots,
-} , @calculatedFrom(
-// " ++ [128512]%N ++ runes_of_ascii " emoji
-/// triple
-""{,}"" )
-    // trailing space 
-    uint32// packet A { u8 x, }
-i64_ `line1
-line2`, } // " ++ [128512]%N ++ runes_of_ascii " emoji")).
-Eval vm_compute in ("<<<M4576>>>" ++ check (runes_of_ascii "packet matchKey {
-    match Header as chars {
-        [""" ++ [233]%N ++ runes_of_ascii "t" ++ [233]%N ++ runes_of_ascii """, 0] : body,
-        [42, 10] : msg_type,
-        """ ++ [128512]%N ++ runes_of_ascii """ : options1,
-        7 : roots,
-        ""\n"" : packetx,
-    },
-    zchar[0] A @lengthOf(int),
-    char[] Header `
-    `,// trailing space 
-    repeat float {
-        repeat o,// `tick` ""quote"" 'q'
-        repeat int32 x_y_z `
-        `,
-    },
-    @tag(0)
-    u64 string_ @calculatedFrom(""`tick`"") `two words`,
-    calculatedFrom {
-        matchKey,// packet A { u8 x, }
-        rootA,
-    },
-}
-
-options {
-    chars = """";
-    As = true;
-    Foo = 7;
-    lengthOf = ""a\\""
-}")).
-Eval vm_compute in ("<<<M1352>>>" ++ check (runes_of_ascii "options {tag =""`tick`"" }
-options { chars
-// c
-//
-=
-255 ;
-    // packet A { u8 x, }
-    int =
-""abc"" string_
-=
-    true
-    ;
-    body
-=  false asx = """ ++ [233]%N ++ runes_of_ascii "t" ++ [233]%N ++ runes_of_ascii """ ;// packet A { u8 x, }
-}
-    packet _x //x
-{
-repeat
-o  { char[ 00
-] f32a@calculatedFrom(
-    """"
-)	,
-f32a `a\`  , } , }packet falsey {
-} packet Z9_
-{ @tag( 0 ) @calculatedFrom( ""`tick`"" )
-    // a // b
-    @tag( 00 ) char[ 3 // " ++ [27880; 37322]%N ++ runes_of_ascii "
-] x @calculatedFrom( """"	) ,
-// @lengthOf(
-// packet A { u8 x, }
-Pad  @calculatedFrom( ""\" ++ [233]%N ++ runes_of_ascii """) ,@rightPad (  '0' ) char[]
-    trueish @lengthOf( packetx
-)
-, }
-// c
-")).
-Eval vm_compute in ("<<<M4317>>>" ++ check (runes_of_ascii "packet string_ {
-    BodyLength u128,
-}
-
-MetaData matchKey {
-}
-
-packet f32a {
-    repeat uint32 matchKey,
-}
-
-root packet trueish {
-    leftPad {
-        match BodyLength as i8i8 {
-            255 : metadata,
-            ""CRC32"" : metadata,
-            ""packet"" : a1,
-        },
-    },
-}
-
-packet asx {
-    leftPad {
-        // `tick` ""quote"" 'q'
-        char[10] options1,
-        char[4294967296] Packet `a\`,
-        o `{ , }`,
-        Z9_ {
-            match Foo as T {
-                3 : a1,
-            },
-        },
-    },
-}")).
-Eval vm_compute in ("<<<M1044>>>" ++ check (runes_of_ascii "
-options	{ x // c
-= ""{,}"" ; i8i8 = true
-;matchKey	=
-""1"" ;} MetaData rootA { string
-    packetx
-    //	t
-    `it's` // c
-,
-// `tick` ""quote"" 'q'
-// packet A { u8 x, }
-char[4294967296	] roots
-,
-    zchar As ,
-    Z9_	asx `" ++ [28040; 24687; 31867; 22411]%N ++ runes_of_ascii "`,char[]Pad , } packet As{@leftPad //
-('0' ) match falsey as pack{4294967296:leftPad ,	10 : // packet A { u8 x, }
-zchar,""it's"" :
-u8x, """" : string_} ,
-    i8 Header , u16
-lengthOf@lengthOf( leftPad ) , }packet int { @tag(3 )  tag ``, }  MetaData
-    // " ++ [27880; 37322]%N ++ runes_of_ascii "
-    a1 {repeatCount	asx , }")).
-Eval vm_compute in ("<<<M1163>>>" ++ check (runes_of_ascii "
-root  packet chars
-{ }
-    packet rootA{ u128
-,match Header as
-    _x	{ 1// a // b
+    007	: roots
+    , } // `tick` ""quote"" 'q'
+,} packet
+    u{ // trailing space 
+@calculatedFrom( ""\n"" ) @calculatedFrom( ""a\""b"" )	i64_
+rootA , match // @lengthOf(
+x as Logon {
+    1
 :
-Foo ,
-// c
-/// triple
-[
-""" ++ [28040; 24687]%N ++ runes_of_ascii """ , 007 ]
-: float ""x y""	: repeatCount , ""\" ++ [233]%N ++ runes_of_ascii """ :
-body 1
-: float , } , i8
-    // packet A { u8 x, }
-    u8x @calculatedFrom( """ ++ [28040; 24687]%N ++ runes_of_ascii """
-) // " ++ [128512]%N ++ runes_of_ascii " emoji
-, string
-metadata ,	@lengthOf( metadata )	repeat
-    /// triple
-    zchar[
-    255
-    ] Foo ,
-// `tick` ""quote"" 'q'
-//x
-@tag( 007 )	Foo @calculatedFrom(	""// no comment""
-) `a\` , leftPad@calculatedFrom(
-""it's""
-    ) `u8 x,` , }
-")).
-Eval vm_compute in ("<<<M3207>>>" ++ check (runes_of_ascii "// top
-options
-    // c0
-{ charz // c2
-= // c3a
-  // c3b
-f64 // c4a
-  // c4b
-; // c5a
-  // c5b
-metadata = // c7
-7 // c8a
-  // c8b
-; // c9a
-  // c9b
-} // c10
-options
-    // c11
-{
-    // c12
-u128 // c13
-=
-    // c14
-10 // c15
-options1 // c16
-= // c17
-true
-    // c18
-; zchar // c20
-=
-    // c21
-uint16
-    // c22
-; lengthOf
-    // c24
-=
-    // c25
-true
-    // c26
-;
-    // c27
-} // c28a
-  // c28b
-options // c29
-{
-    // c30
-len = // c32
-1
-    // c33
-}
-    // c34
-")).
-Eval vm_compute in ("<<<M4487>>>" ++ check (runes_of_ascii "MetaData len {
-}
-
-packet BodyLength {
-    char[42] A @calculatedFrom(""// no comment"") `crlf
-    line`,
-    match Header as calculatedFrom {
-        /// triple
-        // packet A { u8 x, }
-        ""`tick`"" : o,
-        // packet A { u8 x, }
-        // c
-    },
-    repeat packetx,
-}
-
-packet u {
-}
-
-packet x_y_z {
-    @lengthOf(repeatCount)
-    // trailing space 
-    char[] charz @calculatedFrom(""it's"") `doc`,
-}
-
-packet calculatedFrom {
-}")).
-Eval vm_compute in ("<<<M395>>>" ++ check (runes_of_ascii "packet trueish
-    // " ++ [128512]%N ++ runes_of_ascii " emoji
-    { BodyLength
-, // packet A { u8 x, }
-repeat
-    //
-    len , @tag(
-3 ) zchar[ 0 ] u128 // packet A { u8 x, }
-,@calculatedFrom( ""a\""b""
-    )char[] u128 `u8 x,` , }
-MetaData BodyLength {char[
-1]
-A	,
-/// triple
-// `tick` ""quote"" 'q'
-rootA	int ,
-// trailing space 
-// packet A { u8 x, }
-string
+    body,
+""a\\"" /// triple
+: _x ""packet"" : BodyLength,
+},
     //x
-    len ,
-char[] o// @lengthOf(
-, // `tick` ""quote"" 'q'
-uint8x u128 `` , } // @lengthOf(")).
-Eval vm_compute in ("<<<M584>>>" ++ check (runes_of_ascii "options { len
-=""x y""; } packet // @lengthOf(
-repeatCount { zchar[ // a // b
-7]
-f32a ,
-} packet
-    asx { len @calculatedFrom( ""a\\"" ) `line1
-line2`
+    @rightPad ( '\x00'//x
+) @calculatedFrom( """ ++ [128512]%N ++ runes_of_ascii """ )	repeat stringy { match
+//x
+// packet A { u8 x, }
+T as float { ""a\\"" : len
+    0:
+BodyLength , [ ""it's""
+, ""{,}"" , 255 // a // b
+, 0123456789, ""a\\"" ] :
+    Logon, 3:rootA
+    // " ++ [27880; 37322]%N ++ runes_of_ascii "
+    ,
+    }
+//
+// packet A { u8 x, }
+,
+} ,//
+u16 uint8x `{ , }`,
+// trailing space 
+//x
+@leftPad
+    // a // b
+    (
+'0' )  string i64_@lengthOf(  stringy  ),
+// `tick` ""quote"" 'q'
 // @lengthOf(
-// " ++ [27880; 37322]%N ++ runes_of_ascii "
-, @lengthOf(T
-    ) u8x`a\` ,@tag(3 )
-    char Pad `
-` ,
-    char[
-    4294967296 //	t
-]
-    metadata
-    @calculatedFrom( ""CRC32"") ,	@lengthOf( Header ) u64
-    uint8x// `tick` ""quote"" 'q'
-@calculatedFrom(""x y""
-    ) , }
-// " ++ [128512]%N ++ runes_of_ascii " emoji
+u64 leftPad@calculatedFrom( // " ++ [27880; 37322]%N ++ runes_of_ascii "
+""a	b"" ) , repeat // @lengthOf(
+Header MetaDataX `a\`
+, @lengthOf(stringy
+    )	Packet
+leftPad , @tag( 00 ) repeat zchar _x `tab	here` , i32	matchKey , }
 ")).
-Eval vm_compute in ("<<<M4575>>>" ++ check (runes_of_ascii "/// triple
-MetaData x {
-    uint64 u `doc`,
+Eval vm_compute in ("<<<M374>>>" ++ check (runes_of_ascii "packet BodyLength// packet A { u8 x, }
+{ leftPad lengthOf ,	float rootA `it's`	, @leftPad (
+    '0' ) repeat
+    BodyLength ,@rightPad
+(
+    ) i16// a // b
+falsey @lengthOf(// a // b
+i64_ ) , // `tick` ""quote"" 'q'
+repeat
+char[ 0123456789 ]uint8x , repeat
+    // " ++ [27880; 37322]%N ++ runes_of_ascii "
+    f64 i64_,	a1 tag`" ++ [233]%N ++ runes_of_ascii "` ,char[ 10 ]packetx
+`say ""hi""`
+,
+    repeat  tag metadata
+`tab	here` , }
+    /// triple
+    options {
+crc = """"
+    ;
+}
+    packet int
+{ repeat zchar[	255
+    ]	i64_ `two words`//x
+,
+    string tag@lengthOf( // a // b
+Header )
+,char chars ,
+@lengthOf(
+    crc ) match asx as Foo{ 7  : BodyLength , ""packet"" : Z9_
+,007 :
+    matchKey ,} ,
+uint16 metadata// a // b
+,
+i64_ {	repeat
+u8
+msg_type, stringy {char[ 0123456789 ] // c
+o @calculatedFrom(
+""\n"" ) `" ++ [233]%N ++ runes_of_ascii "` ,}
+/// triple
+// packet A { u8 x, }
+, zchar[
+00]
+    stringy	`line1
+line2`
+, } ,
+@leftPad//
+('0') match uint8x as u128 {
+[ 1 // a // b
+, ""abc"" ]
+    : _x  ""a	b"" :Packet
+    // c
+    3 : _x //	t
+, ""`tick`"" :
+packetx ,
+""\n""
+: Header ,  } ,
+x
+    // c
+    @calculatedFrom(
+    /// triple
+    ""\n"" ) ,zchar[ 65535 ]
+    Packet//x
+,
+} MetaData Logon{
+    } packet packetx {
+@calculatedFrom( ""a\\"" )
+match roots as Foo { [""\n"", 4294967296 ] : asx ,00
+:  o , ""{,}"" :Header ,255 : packetx , [255,4294967296	] :MetaDataX
+    ,  } , }")).
+Eval vm_compute in ("<<<M278>>>" ++ check (runes_of_ascii "MetaData f32a { uint8
+/// triple
+//x
+x ,
+f64 As
+`" ++ [233]%N ++ runes_of_ascii "`
+    // packet A { u8 x, }
+    , i64 f32a `u8 x,`  , uint32 // " ++ [128512]%N ++ runes_of_ascii " emoji
+string_ `crlf
+line` , char[ 10] pack
+    `a\` /// triple
+,Packet lengthOf	,}
+    root
+packet
+    MetaDataX { i32	u8x`tab	here` ,
+char[] stringy @lengthOf( repeatCount
+    ) `crlf
+line` , @rightPad ( )@lengthOf( Foo  ) char[
+65535	] body  , repeat pack{
+rootA `it's`
+    , match msg_type as  x_y_z {
+1:
+i64_ , 0123456789
+:Logon
+    , [ ""CRC32""]
+:
+A 1
+: _x , // a // b
+[ 42
+    // a // b
+    ] //
+:// @lengthOf(
+repeatCount , ""a	b""
+: pack
+    ,
+},
+char[
+    4294967296]lengthOf @lengthOf( options1//x
+), } , @tag( 4294967296 ) // " ++ [128512]%N ++ runes_of_ascii " emoji
+@calculatedFrom( //x
+""" ++ [128512]%N ++ runes_of_ascii """ )
+// " ++ [128512]%N ++ runes_of_ascii " emoji
+// " ++ [27880; 37322]%N ++ runes_of_ascii "
+repeat string	u, @lengthOf( // @lengthOf(
+f32a	) @tag(
+    007 ) @tag(
+7  ) msg_type Pad  , }
+    MetaData roots
+    { u64 MetaDataX
+,}
+packet // " ++ [27880; 37322]%N ++ runes_of_ascii "
+roots
+{
+@tag(
+    255 )
+    char[
+0123456789
+]  Logon`" ++ [28040; 24687; 31867; 22411]%N ++ runes_of_ascii "`
+    ,
+    body // packet A { u8 x, }
+@lengthOf( // a // b
+u8x) `two words`
+// " ++ [27880; 37322]%N ++ runes_of_ascii "
+/// triple
+, @lengthOf( Z9_
+)
+    packetx @calculatedFrom( """ ++ [28040; 24687]%N ++ runes_of_ascii """ )// " ++ [27880; 37322]%N ++ runes_of_ascii "
+,
+    }
+")).
+Eval vm_compute in ("<<<M131>>>" ++ check (runes_of_ascii "packet u128 {@lengthOf( x_y_z )	@lengthOf( stringy )
+@lengthOf( _x) zchar[
+// c
+// c
+4294967296 ] asx @calculatedFrom(
+    ""\" ++ [233]%N ++ runes_of_ascii """	)
+    `
+` ,char[0 ] matchKey
+, rootA
+    u128
+    ,
+    metadata metadata ,	zchar[	3 ]
+    string_ `" ++ [233]%N ++ runes_of_ascii "`
+,
+// `tick` ""quote"" 'q'
+// " ++ [27880; 37322]%N ++ runes_of_ascii "
+@calculatedFrom(""a	b""
+)
+char roots `" ++ [28040; 24687; 31867; 22411]%N ++ runes_of_ascii "` , repeat zchar[10]
+pack
+    `
+`, @calculatedFrom( ""{,}"" )
+@lengthOf( //	t
+Foo )  packetx {// " ++ [128512]%N ++ runes_of_ascii " emoji
+match i8i8 as Header
+{ 255	: Z9_  """ ++ [233]%N ++ runes_of_ascii "t" ++ [233]%N ++ runes_of_ascii """ :tag
+, [ 7,	1, ""// no comment"", ""// no comment"" , 3
+,
+    """" , // `tick` ""quote"" 'q'
+1 ] :lengthOf 3 :  asx , [ 42	,
+0 , 1 ] :Z9_ , 10 :
+    A}, } , }root packet T {/// triple
+int32 roots `two words`, stringy, @rightPad ( '\x00')float64 len	@lengthOf( o )
+    ,match body // `tick` ""quote"" 'q'
+as	uint8x { 10
+    :
+tag , }
+    ,
+    repeat u8
+    Pad
+    `" ++ [28040; 24687; 31867; 22411]%N ++ runes_of_ascii "`
+    , repeat char[]
+    float // c
+, @calculatedFrom(	""packet"" ) u16 x
+    @lengthOf(
+u8x)
+// c
+// a // b
+, } //x")).
+Eval vm_compute in ("<<<M10>>>" ++ check (runes_of_ascii "
+options{
+crc
+// " ++ [128512]%N ++ runes_of_ascii " emoji
+// trailing space 
+= uint8} packet len {uint8x @calculatedFrom( ""x y"" ), @lengthOf(
+    rootA  )
+    @lengthOf( body
+// `tick` ""quote"" 'q'
+// `tick` ""quote"" 'q'
+)@calculatedFrom(  ""x y""
+) Packet  @calculatedFrom(// `tick` ""quote"" 'q'
+""\n"" )
+`
+`
+, Packet ,  repeat
+    // trailing space 
+    i8	Z9_ , @tag(255 )
+falsey `
+` ,	i64 int `line1
+line2` ,@calculatedFrom(
+    ""\n""
+// packet A { u8 x, }
+/// triple
+) @leftPad()
+@calculatedFrom(//	t
+""abc"" )// packet A { u8 x, }
+BodyLength ,uint8 u , @calculatedFrom(
+    ""a\""b""
+) @lengthOf( metadata ) @rightPad (' ') // packet A { u8 x, }
+char[10] f32a , }  packet repeatCount { }options  {
+string_ =  i32 ;
+o =	""a	b"" ;
+    i8i8	=
+    ""a\""b"" ; uint8x =
+uint16
+    // " ++ [128512]%N ++ runes_of_ascii " emoji
+    ;
+}")).
+Eval vm_compute in ("<<<M164>>>" ++ check (runes_of_ascii "MetaData
+Packet {
+    float	Pad ,u32 // " ++ [128512]%N ++ runes_of_ascii " emoji
+Foo `it's`
+    ,uint16 stringy
+    , } packet
+    stringy // @lengthOf(
+{ @lengthOf(
+    chars
+) repeat f32 pack ,  @lengthOf(
+rootA
+)
+    // @lengthOf(
+    @calculatedFrom( ""CRC32""  ) char[] MetaDataX
+    // a // b
+    `" ++ [28040; 24687; 31867; 22411]%N ++ runes_of_ascii "` , @tag( 4294967296
+    ) len	@calculatedFrom(""a	b"")
+,
+} packet
+stringy { f32 leftPad/// triple
+,
+stringy { int	@calculatedFrom(""1"" ) `" ++ [233]%N ++ runes_of_ascii "`,	char[] o, zchar[ 0123456789  ]
+    matchKey @lengthOf(	lengthOf )
+`two words`
+, }
+,
+@leftPad ('\x00'
+) @lengthOf(
+// " ++ [128512]%N ++ runes_of_ascii " emoji
+/// triple
+falsey) repeat string falsey
+    `// not a comment` // trailing space 
+, //	t
+string Pad
+    , }
+
+")).
+Eval vm_compute in ("<<<M1489>>>" ++ check (runes_of_ascii "// top
+packet // c0a
+  // c0b
+A // c1a
+  // c1b
+{ // c2
+u8 a // c4a
+  // c4b
+, // c5a
+  // c5b
+} packet
+    // c7
+B // c8a
+  // c8b
+{ // c9a
+  // c9b
+u16 // c10a
+  // c10b
+b
+    // c11
+,
+    // c12
+} // c13
+root // c14
+packet // c15a
+  // c15b
+P { // c17
+u8 // c18a
+  // c18b
+K1 , // c20a
+  // c20b
+u8 // c21
+K2 , // c23
+match K1
+    // c25
+as M1 // c27
+{ // c28a
+  // c28b
+1 // c29a
+  // c29b
+:
+    // c30
+A // c31a
+  // c31b
+, // c32a
+  // c32b
+} , match // c35
+K2 as
+    // c37
+M2
+    // c38
+{ 1 // c40a
+  // c40b
+:
+    // c41
+B , } // c44
+,
+    // c45
+}
+    // c46
+")).
+Eval vm_compute in ("<<<M1825>>>" ++ check (runes_of_ascii "
+options
+
+{ StringPrefixLenType = 
+u8 ;	ArrayPrefixLenType=u32	;
+
 }
 
-root packet i8i8 {
-    uint32 zchar @lengthOf(chars),
-    string rootA @calculatedFrom(""\n""),
+packet Quote
+	{ u32
+    Ref 
+, 
+InNote74  { 
+u8  pad0, }, }packet Ack
+
+    {
+repeat string
+
+    OrderId,
 }
 
-packet MetaDataX {
-    i32 A @lengthOf(string_) ``,
-    @calculatedFrom(""a\\"")
-    @lengthOf(roots)
-    msg_type asx `crlf
-    line`,
-    @lengthOf(metadata)
-    @calculatedFrom(""" ++ [28040; 24687]%N ++ runes_of_ascii """)
-    @leftPad()
-    repeat string o `// not a comment`,
-}//x")).
+    packet
+Logout
+	{ zchar[  7
+
+    ]
+venue, 
+char[
+
+12
+
+    ]
+Px
+
+,
+	string
+    count ,
+	char[] Tail	,
+
+    char[]
+
+Qty,
+
+    Quote
+	,
+
+} root 
+packet Trade{	zchar[	2 ] 
+price
+,
+
+u32
+    x , u32 lastPx @lengthOf(
+Body ),	match 
+x
+	as Body
+	{ 148: Ack  ,
+
+171:
+Quote, 15 
+:
+
+    Logout
+,  }
+    ,	} ")).
+Eval vm_compute in ("<<<M349>>>" ++ check (runes_of_ascii "MetaData string_ {
+char[]
+Packet `
+`
+    , i8i8 A  ,
+string A
+`it's`
+,// trailing space 
+uint64 int
+, }
+// trailing space 
+// " ++ [27880; 37322]%N ++ runes_of_ascii "
+MetaData Z9_ { Header crc , // " ++ [27880; 37322]%N ++ runes_of_ascii "
+} MetaData T {// c
+float32 Z9_ `// not a comment`
+    , char[] /// triple
+uint8x`line1
+line2` ,
+Header u8x,
+char[ 3] a1	,
+    }MetaData Logon { a1 // " ++ [128512]%N ++ runes_of_ascii " emoji
+repeatCount `say ""hi""` , char[
+    42  ] Foo
+    ,
+    zchar[ 00
+    ] metadata
+,
+int16  zchar `it's` , }")).
 Eval vm_compute in ("<<<M99>>>" ++ check (runes_of_ascii "packet i8i8{ matchKey //x
 , match trueish
 //	t
@@ -1523,714 +556,347 @@ leftPad
     // @lengthOf(
     ) repeat lengthOf u8x, }
 ")).
-Eval vm_compute in ("<<<M691>>>" ++ check (runes_of_ascii "//x
-packet string_ { @calculatedFrom(
-""// no comment"" ) @calculatedFrom( ""abc"" ) @calculatedFrom(	""a	b"" )
-match u8x as u8x { 7 :x
-, [
-    ""packet""]	: chars ,} , } MetaData i8i8 { char[] a1 , crc// trailing space 
-a1 , // trailing space 
-char[
-1 ] // @lengthOf(
-matchKey , // `tick` ""quote"" 'q'
-}
-    options {Logon
-    = ""{,}""	; }// " ++ [27880; 37322]%N ++ runes_of_ascii "
-options {  }
-
-")).
-Eval vm_compute in ("<<<M791>>>" ++ check (runes_of_ascii "root
-    packet
-falsey{  repeat i64_ , //	t
-@tag( 4294967296 ) @leftPad (' ' )
-@lengthOf( _x )x leftPad `a\`,
-/// triple
-// " ++ [27880; 37322]%N ++ runes_of_ascii "
-@calculatedFrom( """"	)  @lengthOf( i8i8 ) @tag( 10
-    ) stringy { u8x { int8 i8i8 @lengthOf( string_ ) `doc`
-, string asx, }
-// " ++ [128512]%N ++ runes_of_ascii " emoji
-/// triple
-,} ,
-    @tag( 007
-)string metadata  , } // packet A { u8 x, }")).
-Eval vm_compute in ("<<<M1918>>>" ++ check (runes_of_ascii "MetaData
-    u { }  options {
-// c
-// @lengthOf(
-float = int8 ;rootA =@calculatedFrom( ; As =	int16 // `tick` ""quote"" 'q'
-repeatCount
-    // trailing space 
-    =
-    int16
-; u8x =
-    //	t
-    '\x00' ; } options	{
-    repeatCount
-= 0
-u128
-    //
-    = false ; i64_
-// trailing space 
-// `tick` ""quote"" 'q'
-= '0' ; //	t
-}
-")).
-Eval vm_compute in ("<<<M2031>>>" ++ check (runes_of_ascii "MetaData
-    u { }  options {
-// c
-// @lengthOf(
-float = int8 ;rootA =false ; As =	int16 // `tick` ""quote"" 'q'
-repeatCount
-    // trailing space 
-    =
-    int16
-; u8x =
-    //	t
-    '\x00' ; } options	{
-    repeatCount
-= 0
-u128
-    //
-    = false ; i64_ i64_
-// trailing space 
-// `tick` ""quote"" 'q'
-= '0' ; //	t
-}
-")).
-Eval vm_compute in ("<<<M1966>>>" ++ check (runes_of_ascii "MetaData
-    u { }  options {
-// c
-// @lengthOf(
-float = int8 ;rootA =false ; As =	int16 // `tick` ""quote"" 'q'
-repeatCount
-    // trailing space 
-    =
-    int16
-; u8x = =
-    //	t
-    '\x00' ; } options	{
-    repeatCount
-= 0
-u128
-    //
-    = false ; i64_
-// trailing space 
-// `tick` ""quote"" 'q'
-= '0' ; //	t
-}
-")).
-Eval vm_compute in ("<<<M2067>>>" ++ check (runes_of_ascii "MetaData
-    u { }  options {
-// c
-// @lengthOf(
-float = int8 ;rootA =false ; As =	int16 // `tick` ""quote"" 'q'
-repeatCount
-    // trailing space 
-    =
-    int16
-; u8x =
-    //	t
-    '\x00' ; } options	{
-    `repeatCount
-= 0
-u128
-    //
-    = false ; i64_
-// trailing space 
-// `tick` ""quote"" 'q'
-= '0' ; //	t
-}
-")).
-Eval vm_compute in ("<<<M1977>>>" ++ check (runes_of_ascii "MetaData
-    u { }  options {
-// c
-// @lengthOf(
-float = int8 ;rootA =false ; As =	int16 // `tick` ""quote"" 'q'
-repeatCount
-    // trailing space 
-    =
-    int16
-; u8x =
-    //	t
-    '\x00' } ; options	{
-    repeatCount
-= 0
-u128
-    //
-    = false ; i64_
-// trailing space 
-// `tick` ""quote"" 'q'
-= '0' ; //	t
-}
-")).
-Eval vm_compute in ("<<<M1955>>>" ++ check (runes_of_ascii "MetaData
-    u { }  options {
-// c
-// @lengthOf(
-float = int8 ;rootA =false ; As =	int16 // `tick` ""quote"" 'q'
-repeatCount
-    // trailing space 
-    =
-    int16
- u8x =
-    //	t
-    '\x00' ; } options	{
-    repeatCount
-= 0
-u128
-    //
-    = false ; i64_
-// trailing space 
-// `tick` ""quote"" 'q'
-= '0' ; //	t
-}
-")).
-Eval vm_compute in ("<<<M1905>>>" ++ check (runes_of_ascii "MetaData
-    u { }  options {
-// c
-// @lengthOf(
-float = int8 ; =false ; As =	int16 // `tick` ""quote"" 'q'
-repeatCount
-    // trailing space 
-    =
-    int16
-; u8x =
-    //	t
-    '\x00' ; } options	{
-    repeatCount
-= 0
-u128
-    //
-    = false ; i64_
-// trailing space 
-// `tick` ""quote"" 'q'
-= '0' ; //	t
-}
-")).
-Eval vm_compute in ("<<<M4>>>" ++ check (runes_of_ascii "root packet pack  { match Pad as// a // b
-f32a
-    {	[
-/// triple
-//	t
-"""" ]: leftPad
-, [""" ++ [233]%N ++ runes_of_ascii "t" ++ [233]%N ++ runes_of_ascii """,007 ] : //	t
-f32a //x
-, 65535 :  body
-    ,
-    // @lengthOf(
-    10:u128,42	: // trailing space 
-pack, } ,}options{// " ++ [27880; 37322]%N ++ runes_of_ascii "
-o=
-    // c
-    f64 ; x_y_z //
-= /// triple
-u32 len =
-    42;
-falsey
-    = true	;}")).
-Eval vm_compute in ("<<<M4087>>>" ++ check (runes_of_ascii "  root	packet	rootA
+Eval vm_compute in ("<<<M1714>>>" ++ check (runes_of_ascii "
+root packet  tag
 {
 
-} 
-root
+    }
 
 packet
+	MetaDataX {
+char[  007
+] 
 
-// a // b
-  	// trailing space 
-	_x // " ++ [27880; 37322]%N ++ runes_of_ascii "
-  { i64_
-	,  // a // b
-    	} MetaData options1
+    // c
+/// triple
+  asx
+    @calculatedFrom(
 
-    { 	 // `tick` ""quote"" 'q'
-		a1  float `crlf
-line` ,
+    ""a\""b""
 
-    u8x
+) `say ""hi""`  // " ++ [27880; 37322]%N ++ runes_of_ascii "
 
-falsey  // " ++ [128512]%N ++ runes_of_ascii " emoji
-`" ++ [233]%N ++ runes_of_ascii "`
-,	f32a MetaDataX , 
-int64 u8x  ,
+  ,
 
-    }packet
-	f32a {
+    @tag(
+    4294967296 
+) char[ 
+1	//x
 
-    }
-")).
-Eval vm_compute in ("<<<M61>>>" ++ check (runes_of_ascii "options
-{  chars =
-    /// triple
-    char; o
-    /// triple
-    = true u128 =
-    ""x y"" ;} packet	chars
-    { @calculatedFrom( ""\n"" )repeat f64 packetx  ,  @tag(4294967296 ) float32 Header
-, zchar[
-007
-]float `// not a comment`
-    ,
-    }
-options  {
-stringy = zchar[ 7 ] ;}")).
-Eval vm_compute in ("<<<M39>>>" ++ check (runes_of_ascii "packet As
-{//
-@lengthOf(trueish ) uint8
-    repeatCount	,
-} options// c
-{As =	""1""matchKey
-=""x y"" ;
-Packet = ' '  }MetaData repeatCount { string BodyLength `{ , }` , char[
-    0123456789 ]//	t
-trueish
-    ,
-uint16 A, u32 falsey `two words`
-, } packet
-float{// c
-}
+	]
+	packetx
 
+@calculatedFrom(""a\""b""
+)	,
+
+    // " ++ [128512]%N ++ runes_of_ascii " emoji
+  // a // b
+	  @calculatedFrom( """ ++ [233]%N ++ runes_of_ascii "t" ++ [233]%N ++ runes_of_ascii """
+
+    ) pack // " ++ [27880; 37322]%N ++ runes_of_ascii "
+
+  ,
+	} 	 // c
+ 
 ")).
-Eval vm_compute in ("<<<M1660>>>" ++ check (runes_of_ascii "packet
-//	t
-// trailing spa@lengthOfce 
-_x {
-// packet A { u8 x, }
-// c
-char[
-3
-    ] u8x @lengthOf(
-u8x ) , @calculatedFrom(""" ++ [128512]%N ++ runes_of_ascii """ // @lengthOf(
-)
-i16	Foo
-@lengthOf(	string_
-    )`doc`	, repeat	i64 metadata , @lengthOf( string_
-) i8 // c
-u  `line1
-line2`	,
-}
-")).
-Eval vm_compute in ("<<<M1598>>>" ++ check (runes_of_ascii "packet
-//	t
-// trailing space 
-_x {
-// packet A { u8 x, }
-// c
-char[
-3
-    ] u8x @lengthOf(
-u8x ) , @calculatedFrom(""" ++ [128512]%N ++ runes_of_ascii """ // @lengthOf(
-)
-i16	Foo
-@lengthOf(	string_
-    )`doc`	, repeat	i64 i64 metadata , @lengthOf( string_
-) i8 // c
-u  `line1
-line2`	,
-}
-")).
-Eval vm_compute in ("<<<M1669>>>" ++ check (runes_of_ascii "packet
-//	t
-// trailing space 
-_x {
-// packet A { u8 x, }
-// c
-char[
-3
-    ] na" ++ [239]%N ++ runes_of_ascii "ve @lengthOf(
-u8x ) , @calculatedFrom(""" ++ [128512]%N ++ runes_of_ascii """ // @lengthOf(
-)
-i16	Foo
-@lengthOf(	string_
-    )`doc`	, repeat	i64 metadata , @lengthOf( string_
-) i8 // c
-u  `line1
-line2`	,
-}
-")).
-Eval vm_compute in ("<<<M1539>>>" ++ check (runes_of_ascii "packet
-//	t
-// trailing space 
-_x {
-// packet A { u8 x, }
-// c
-char[
-3
-    ] u8x @lengthOf(
-u8x ) @calculatedFrom( ,""" ++ [128512]%N ++ runes_of_ascii """ // @lengthOf(
-)
-i16	Foo
-@lengthOf(	string_
-    )`doc`	, repeat	i64 metadata , @lengthOf( string_
-) i8 // c
-u  `line1
-line2`	,
-}
-")).
-Eval vm_compute in ("<<<M1512>>>" ++ check (runes_of_ascii "packet
-//	t
-// trailing space 
-_x {
-// packet A { u8 x, }
-// c
-char[
-3
-     u8x @lengthOf(
-u8x ) , @calculatedFrom(""" ++ [128512]%N ++ runes_of_ascii """ // @lengthOf(
-)
-i16	Foo
-@lengthOf(	string_
-    )`doc`	, repeat	i64 metadata , @lengthOf( string_
-) i8 // c
-u  `line1
-line2`	,
-}
-")).
-Eval vm_compute in ("<<<M777>>>" ++ check (runes_of_ascii "root packet i8i8
-// `tick` ""quote"" 'q'
-// packet A { u8 x, }
-{ string calculatedFrom @calculatedFrom( ""a	b"" //x
-)
-    , @calculatedFrom(
-""abc"") // " ++ [27880; 37322]%N ++ runes_of_ascii "
-int32 float// " ++ [128512]%N ++ runes_of_ascii " emoji
-,
-//x
-// a // b
-@calculatedFrom( ""a\""b"")
-repeat u64 BodyLength
-,
-    }
-")).
-Eval vm_compute in ("<<<M3390>>>" ++ check (runes_of_ascii "// top
+Eval vm_compute in ("<<<M1176>>>" ++ check (runes_of_ascii "// top
 MetaData
     // c0
-body
+float
     // c1
 {
     // c2
-i64
+float64
     // c3
-pack
+charz
     // c4
-`it's`
+`
+`
     // c5
 ,
     // c6
 }
     // c7
-packet
+root
     // c8
-stringy
+packet
     // c9
-{
+chars
     // c10
-int16
+{
     // c11
-calculatedFrom
+@rightPad
     // c12
-,
+(
     // c13
-}
+'0'
     // c14
-")).
-Eval vm_compute in ("<<<M4473>>>" ++ check (runes_of_ascii "root packet roots {
-}// `tick` ""quote"" 'q'
-
-MetaData As {
-    string u `{ , }`,
-    zchar[3] x_y_z,
-    i32 roots,
-    u16 rootA `line1
-    line2`,
-    // `tick` ""quote"" 'q'
-    // a // b
-    i32 matchKey `doc`,
-    u _x `{ , }`,
-}")).
-Eval vm_compute in ("<<<M4479>>>" ++ check (runes_of_ascii "packet _x {
-    // packet A { u8 x, }
-    // c
-    char[3] u8x @lengthOf(u8x),
-    @calculatedFrom(""" ++ [128512]%N ++ runes_of_ascii """)
-    i16 Foo @lengthOf(string_) `doc`,
-    repeat i64 metadata,
-    @lengthOf(string_)
-    i8 u `line1
-        line2`,
-}")).
-Eval vm_compute in ("<<<M267>>>" ++ check (runes_of_ascii "root packet
-i8i8
-    { _x@lengthOf(chars
-),
-    char[	7]
-packetx
-    /// triple
-    `say ""hi""`
-,
-    // c
-    }root packet string_ {
-    //
-    repeat// `tick` ""quote"" 'q'
-options1// c
-`u8 x,`	,
-    }
-options {	}")).
-Eval vm_compute in ("<<<M1846>>>" ++ check (runes_of_ascii "options { t@leftpadrueish = ""`tick`"" ; string_= """ ++ [233]%N ++ runes_of_ascii "t" ++ [233]%N ++ runes_of_ascii """
-    // c
-    } root
-    packet body { stringy @calculatedFrom(
-""a	b"" ) `line1
-line2` , }
-packet Logon {
-    @leftPad(
-    ' ' ) //	t
-u16 string_ `u8 x,` ,
-}
-")).
-Eval vm_compute in ("<<<M1852>>>" ++ check (runes_of_ascii "options { trueish = ""`tick`"" ; string_= """ ++ [233]%N ++ runes_of_ascii "t" ++ [233]%N ++ runes_of_ascii "@tag""
-    // c
-    } root
-    packet body { stringy @calculatedFrom(
-""a	b"" ) `line1
-line2` , }
-packet Logon {
-    @leftPad(
-    ' ' ) //	t
-u16 string_ `u8 x,` ,
-}
-")).
-Eval vm_compute in ("<<<M580>>>" ++ check (runes_of_ascii "options{float
-    =
-    float32 ; }	options {//x
-As =
-    char[]; roots = ""it's""
-}packet
-    leftPad {@tag( 42 // trailing space 
 )
-    repeat _x `two words` ,@calculatedFrom(""x y"" ) repeat char[] Pad
-, }
-")).
-Eval vm_compute in ("<<<M1738>>>" ++ check (runes_of_ascii "options { trueish = ""`tick`"" ; string_= """ ++ [233]%N ++ runes_of_ascii "t" ++ [233]%N ++ runes_of_ascii """
-    // c
-    } root
-    packet body stringy { @calculatedFrom(
-""a	b"" ) `line1
-line2` , }
-packet Logon {
-    @leftPad(
-    ' ' ) //	t
-u16 string_ `u8 x,` ,
-}
-")).
-Eval vm_compute in ("<<<M1716>>>" ++ check (runes_of_ascii "options { trueish = ""`tick`"" ; string_= """ ++ [233]%N ++ runes_of_ascii "t" ++ [233]%N ++ runes_of_ascii """
-    // c
-     root
-    packet body { stringy @calculatedFrom(
-""a	b"" ) `line1
-line2` , }
-packet Logon {
-    @leftPad(
-    ' ' ) //	t
-u16 string_ `u8 x,` ,
-}
-")).
-Eval vm_compute in ("<<<M1781>>>" ++ check (runes_of_ascii "options { trueish = ""`tick`"" ; string_= """ ++ [233]%N ++ runes_of_ascii "t" ++ [233]%N ++ runes_of_ascii """
-    // c
-    } root
-    packet body { stringy @calculatedFrom(
-""a	b"" ) `line1
-line2` , }
-packet  {
-    @leftPad(
-    ' ' ) //	t
-u16 string_ `u8 x,` ,
-}
-")).
-Eval vm_compute in ("<<<M3540>>>" ++ check (runes_of_ascii "// top
-root // c0
-packet
-    // c1
-P // c2a
-  // c2b
-{ // c3a
-  // c3b
-hdr { // c5a
-  // c5b
-u8 // c6a
-  // c6b
-a ,
-    // c8
-} // c9a
-  // c9b
-, u8 // c11a
-  // c11b
-x
-    // c12
+    // c15
+Foo
+    // c16
 ,
-    // c13
-} ")).
-Eval vm_compute in ("<<<M1325>>>" ++ check (runes_of_ascii "//
-packet x_y_z
-    // `tick` ""quote"" 'q'
-    {
-@calculatedFrom(""x y""  )	@calculatedFrom( ""packet"" ) @calculatedFrom(""CRC32""
-    ) a1 uint8x
-    //
-    `u8 x,`
-// " ++ [128512]%N ++ runes_of_ascii " emoji
-// @lengthOf(
-,}
+    // c17
+}
+    // c18
 ")).
-Eval vm_compute in ("<<<M4117>>>" ++ check (runes_of_ascii "packet pack {
-	pack calculatedFrom,  len
-,	u16 T
-	,@lengthOf( trueish
-)  repeat  leftPad,
-@calculatedFrom(
-	""" ++ [233]%N ++ runes_of_ascii "t" ++ [233]%N ++ runes_of_ascii """
-
-)@rightPad (	'0' 
-)	f64 a1
-    ,repeat trueish
-Header
-
-    , } ")).
-Eval vm_compute in ("<<<M430>>>" ++ check (runes_of_ascii "root packet i8i8 { @tag(
-3) @tag( // " ++ [128512]%N ++ runes_of_ascii " emoji
-42 )repeat zchar[ 0123456789 ]
-    options1 // a // b
-, string	charz
-`say ""hi""` ,
-    }
-MetaData int{
-    uint16 uint8x,
-    }")).
-Eval vm_compute in ("<<<M1969>>>" ++ check (runes_of_ascii "MetaData
-    u { }  options {
+Eval vm_compute in ("<<<M634>>>" ++ check (runes_of_ascii "root packet tag { }  packet MetaDataX{char[007	]
 // c
-// @lengthOf(
-float = int8 ;rootA =false ; As =	int16 // `tick` ""quote"" 'q'
-repeatCount
-    // trailing space 
-    =
-    int16
-; u8x")).
-Eval vm_compute in ("<<<M2393>>>" ++ check (runes_of_ascii "// c
-packet x { @lengthOf( metadata ) repeat lengthOf
-,a1{
-trueish	,// c
-repeat//	t
-MetaDataX , } , zchar[
-    4@lengthOf2	] rootA // `tick` ""quote"" 'q'
-,
-    }
-")).
-Eval vm_compute in ("<<<M2408>>>" ++ check (runes_of_ascii "// c
-packet x { @lengthOf( metadata ) repeat lengthOf
-,a1{
-trueish	,// c
-repeat//	t
-MetaDataX , } , zchar[
-    42	] rootA // `tick` ""quote"" 'q'
-,'\x01'
-    }
-")).
-Eval vm_compute in ("<<<M2388>>>" ++ check (runes_of_ascii "// c
-packet x { @lengthOf( metadata ) repeat lengthOf
-,a1{
-trueish	,// c
-repeat//	t
-MetaDataX , } , zchar[
-    42	true rootA // `tick` ""quote"" 'q'
-,
-    }
-")).
-Eval vm_compute in ("<<<M2314>>>" ++ check (runes_of_ascii "// c
-packet x { @lengthOf( metadata ) repeat lengthOf
-,a1 trueish
-{	,// c
-repeat//	t
-MetaDataX , } , zchar[
-    42	] rootA // `tick` ""quote"" 'q'
-,
-    }
-")).
-Eval vm_compute in ("<<<M2330>>>" ++ check (runes_of_ascii "// c
-packet x { @lengthOf( metadata ) repeat lengthOf
-,a1{
-trueish	,// c
-repeat//	t
-, MetaDataX } , zchar[
-    42	] rootA // `tick` ""quote"" 'q'
-,
-    }
-")).
-Eval vm_compute in ("<<<M2375>>>" ++ check (runes_of_ascii "// c
-packet x { @lengthOf( metadata ) repeat lengthOf
-,a1{
-trueish	,// c
-repeat//	t
-MetaDataX ,  , zchar[
-    42	] rootA // `tick` ""quote"" 'q'
-,
-    }
-")).
-Eval vm_compute in ("<<<M2166>>>" ++ check (runes_of_ascii "options{
-_x
-= true
-} options
-{ o	= /// triple
-false
-    ; chars
-= ""\n"" } root packet	{
 /// triple
-// packet A { u8 x, }
-Pad	chars
-    // a // b
-    ,}")).
-Eval vm_compute in ("<<<M3583>>>" ++ check (runes_of_ascii "packet A {
+asx  @calculatedFrom( ""a\""b""
+) `say ""hi""`// " ++ [27880; 37322]%N ++ runes_of_ascii "
+,  @tag(4294967296 )
+    char[1//x
+] packetx @calculatedFrom(""a\""b""
+    ) ,
+// " ++ [128512]%N ++ runes_of_ascii " emoji
+// a // b
+@calculatedFrom(""" ++ [233]%N ++ runes_of_ascii "t" ++ [233]%N ++ runes_of_ascii """  ) repeat repeat pack // " ++ [27880; 37322]%N ++ runes_of_ascii "
+,
+    } // c")).
+Eval vm_compute in ("<<<M499>>>" ++ check (runes_of_ascii "root packet tag { } }  packet MetaDataX{char[007	]
+// c
+/// triple
+asx  @calculatedFrom( ""a\""b""
+) `say ""hi""`// " ++ [27880; 37322]%N ++ runes_of_ascii "
+,  @tag(4294967296 )
+    char[1//x
+] packetx @calculatedFrom(""a\""b""
+    ) ,
+// " ++ [128512]%N ++ runes_of_ascii " emoji
+// a // b
+@calculatedFrom(""" ++ [233]%N ++ runes_of_ascii "t" ++ [233]%N ++ runes_of_ascii """  ) repeat pack // " ++ [27880; 37322]%N ++ runes_of_ascii "
+,
+    } // c")).
+Eval vm_compute in ("<<<M616>>>" ++ check (runes_of_ascii "root packet tag { }  packet MetaDataX{char[007	]
+// c
+/// triple
+asx  @calculatedFrom( ""a\""b""
+) `say ""hi""`// " ++ [27880; 37322]%N ++ runes_of_ascii "
+,  @tag(4294967296 )
+    char[1//x
+] packetx @calculatedFrom(""a\""b""
+    ) u8
+// " ++ [128512]%N ++ runes_of_ascii " emoji
+// a // b
+@calculatedFrom(""" ++ [233]%N ++ runes_of_ascii "t" ++ [233]%N ++ runes_of_ascii """  ) repeat pack // " ++ [27880; 37322]%N ++ runes_of_ascii "
+,
+    } // c")).
+Eval vm_compute in ("<<<M605>>>" ++ check (runes_of_ascii "root packet tag { }  packet MetaDataX{char[007	]
+// c
+/// triple
+asx  @calculatedFrom( ""a\""b""
+) `say ""hi""`// " ++ [27880; 37322]%N ++ runes_of_ascii "
+,  @tag(4294967296 )
+    char[1//x
+] packetx @calculatedFrom()
+    ""a\""b"" ,
+// " ++ [128512]%N ++ runes_of_ascii " emoji
+// a // b
+@calculatedFrom(""" ++ [233]%N ++ runes_of_ascii "t" ++ [233]%N ++ runes_of_ascii """  ) repeat pack // " ++ [27880; 37322]%N ++ runes_of_ascii "
+,
+    } // c")).
+Eval vm_compute in ("<<<M1509>>>" ++ check (runes_of_ascii "packet MDSnapshotZZ {
     u8 a,
 }
-packet B {
+packet OrderACK {
     u16 b,
 }
-root packet P {
-    u8 K,
-    match K as M {
-        [1, 2] : A,
-        3 : B,
-        7 : A,
+packet HTTPServerInfo {
+    string s,
+}
+root packet FIXMsg {
+    u8 KType,
+    MDSnapshotZZ,
+    repeat OrderACK,
+    match KType as Body {
+        1 : HTTPServerInfo,
+        2 : OrderACK,
     },
 }
 ")).
-Eval vm_compute in ("<<<M2317>>>" ++ check (runes_of_ascii "// c
-packet x { @lengthOf( metadata ) repeat lengthOf
-,a1{
-trueish	,// c
-//	t
-MetaDataX , } , zchar[
-    42	] rootA // `tick` ""quote"" 'q'
-,
-    }
-")).
-Eval vm_compute in ("<<<M2057>>>" ++ check (runes_of_ascii "MetaData
-    u { }  options {
+Eval vm_compute in ("<<<M508>>>" ++ check (runes_of_ascii "root packet tag { }  packet {char[007	]
 // c
-// @lengthOf(
-float = int8 ;rootA =false ; As =	int16 // `tick` ""quote"" 'q'
-repeatCount
-    // trailing space")).
-Eval vm_compute in ("<<<M198>>>" ++ check (runes_of_ascii "MetaData
-    //x
-    body
-    // a // b
-    { BodyLength stringy ,
-    //	t
-    zchar[ 42 ] o
+/// triple
+asx  @calculatedFrom( ""a\""b""
+) `say ""hi""`// " ++ [27880; 37322]%N ++ runes_of_ascii "
+,  @tag(4294967296 )
+    char[1//x
+] packetx @calculatedFrom(""a\""b""
+    ) ,
+// " ++ [128512]%N ++ runes_of_ascii " emoji
+// a // b
+@calculatedFrom(""" ++ [233]%N ++ runes_of_ascii "t" ++ [233]%N ++ runes_of_ascii """  ) repeat pack // " ++ [27880; 37322]%N ++ runes_of_ascii "
+,
+    } // c")).
+Eval vm_compute in ("<<<M361>>>" ++ check (runes_of_ascii "root
+packet
+f32a {
+trueish
+    falsey
+, tag , repeat
+    // trailing space 
+    Pad{ u32
+    i8i8 @calculatedFrom(""x y""
+    )
+, } ,@calculatedFrom( ""// no comment""  )@lengthOf( calculatedFrom
+    ) @tag(	65535)  string T,
+    }
+
+")).
+Eval vm_compute in ("<<<M1808>>>" ++ check (runes_of_ascii "
+MetaData x_y_z
+
+    {
+	string
+msg_type 
+`" ++ [233]%N ++ runes_of_ascii "`
+,}
+
+    packet
+
+chars
+	{
+
+repeat
+i32
+
+metadata `say ""hi""` , 
+@leftPad( )
+    @tag( 0123456789	)  repeat
+    zchar[
+	    // a // b
+	007	]
+//x
+  lengthOf 
+,	}
+")).
+Eval vm_compute in ("<<<M1728>>>" ++ check (runes_of_ascii "
+packet
+u128
+{
+    u8 a,
+    } root
+
+    packet
+
+Msg{	u8
+
+    k	,	u24 
+{  u8	Hi
+,	u16 Lo
+, 
+}
+
     ,
-i64_ lengthOf `{ , }` ,u8 MetaDataX  , }")).
+	repeat
+	i24
+	{
+    u32 q
+,} , u128
+    ,
+	u16
+
+float32x
+
+,
+	string
+    s 
+, }
+")).
+Eval vm_compute in ("<<<M463>>>" ++ check (runes_of_ascii "packet
+    // `tick` ""quote"" 'q'
+    crc@leftpad
+// packet A { u8 x, }
+//	t
+{
+u32 a1 ,
+    // trailing space 
+    roots
+charz //
+`two words`,	}
+    MetaData int {
+} /// triple")).
+Eval vm_compute in ("<<<M410>>>" ++ check (runes_of_ascii "packet
+    // `tick` ""quote"" 'q'
+    crc
+// packet A { u8 x, }
+//	t
+{
+u32 a1 , ,
+    // trailing space 
+    roots
+charz //
+`two words`,	}
+    MetaData int {
+} /// triple")).
+Eval vm_compute in ("<<<M329>>>" ++ check (runes_of_ascii "packet
+pack
+    { pack calculatedFrom, len, u16	T,
+@lengthOf( trueish) repeat
+leftPad ,
+@calculatedFrom( """ ++ [233]%N ++ runes_of_ascii "t" ++ [233]%N ++ runes_of_ascii """	) @rightPad	( '0' ) f64 a1,repeat
+trueish Header , } 	 ")).
+Eval vm_compute in ("<<<M392>>>" ++ check (runes_of_ascii "packet
+    // `tick` ""quote"" 'q'
+    42
+// packet A { u8 x, }
+//	t
+{
+u32 a1 ,
+    // trailing space 
+    roots
+charz //
+`two words`,	}
+    MetaData int {
+} /// triple")).
+Eval vm_compute in ("<<<M1753>>>" ++ check (runes_of_ascii "// top
+packet metadata {
+    // c2
+    Logon {
+        // c4
+        A `" ++ [28040; 24687; 31867; 22411]%N ++ runes_of_ascii "`,// c7
+        tag o,// c10
+    },// c12
+    zchar len `// not a comment`,// c16
+}// c17")).
+Eval vm_compute in ("<<<M58>>>" ++ check (runes_of_ascii "root packet chars { /// triple
+int16 trueish	@lengthOf( MetaDataX)
+`tab	here`,} MetaData
+T
+// a // b
+// c
+{
+    int64 packetx `doc`
+    // @lengthOf(
+    ,}")).
+Eval vm_compute in ("<<<M1785>>>" ++ check (runes_of_ascii "
+packet A { match  k as
+
+n {
+	[	1  ,
+
+    ""bb"" 
+, 
+007 , ""d""  ,
+5 
+, 
+""f""
+	, 7
+
+    ,	""h""
+
+, 9,
+	""j"",  11 
+,	""l""
+
+    ]: B 2
+:
+C } 
+, 
+}
+
+")).
 Eval vm_compute in ("<<<M104>>>" ++ check (runes_of_ascii "/// triple
 options  { Header = 65535
     ; calculatedFrom =
@@ -2238,349 +904,190 @@ options  { Header = 65535
 =	""" ++ [28040; 24687]%N ++ runes_of_ascii """ ;
 }
 ")).
-Eval vm_compute in ("<<<M3761>>>" ++ check (runes_of_ascii "
-
-  MetaData  float  { float64	charz `
-`
-,
-}
-
-    root 
-        // c
-packet
-    chars
-
-    {
-@rightPad (
-    '0'
-)	Foo , } ")).
-Eval vm_compute in ("<<<M1275>>>" ++ check (runes_of_ascii "packet Z9_
-{	}packet f32a	{
-repeat metadata
-//	t
-// " ++ [27880; 37322]%N ++ runes_of_ascii "
-`
-` , charz // @lengthOf(
-@calculatedFrom( ""a\\"" ) , i64
-charz , }
-")).
-Eval vm_compute in ("<<<M807>>>" ++ check (runes_of_ascii "options { }
-options {
-pack =false; Z9_//
-= false ;} packet Pad { }
-packet u8x
-{ repeat// " ++ [128512]%N ++ runes_of_ascii " emoji
-matchKey packetx
-, } //x")).
-Eval vm_compute in ("<<<M3324>>>" ++ check (runes_of_ascii "root packet matchKey { zchar[ 3 ] // c
-pack @calculatedFrom( ""a	b"" ) `doc` , } options { } MetaData A { int8 msg_type , }")).
-Eval vm_compute in ("<<<M3356>>>" ++ check (runes_of_ascii "root packet matchKey { zchar[ 3 ] pack @calculatedFrom( ""a	b"" ) `doc` , } options { } MetaData A { int8 msg_type , // c
-}")).
-Eval vm_compute in ("<<<M1476>>>" ++ check (runes_of_ascii "
-packet
-    falsey { Header@calculatedFrom(""packet""  ) , char[
-    0123456789 ] packetx
-    , } // `tick` ""quote"" 'q'#")).
-Eval vm_compute in ("<<<M1454>>>" ++ check (runes_of_ascii "
-packet
-    falsey { Header@calculatedFrom(""packet""  ) , char[
-    0123456789 ] ,
-    packetx } // `tick` ""quote"" 'q'")).
-Eval vm_compute in ("<<<M1760>>>" ++ check (runes_of_ascii "options { trueish = ""`tick`"" ; string_= """ ++ [233]%N ++ runes_of_ascii "t" ++ [233]%N ++ runes_of_ascii """
-    // c
-    } root
-    packet body { stringy @calculatedFrom(
-""a	b""")).
-Eval vm_compute in ("<<<M3724>>>" ++ check (runes_of_ascii "
-MetaData
-
-float {
-	float64  charz 
-`
-` ,
-	// c
-	}
-	root 
-packet
-
-    chars
-
-{ @rightPad  ( '0')	Foo
-	,	}
-")).
-Eval vm_compute in ("<<<M24>>>" ++ check (runes_of_ascii "root packet
-    metadata// " ++ [128512]%N ++ runes_of_ascii " emoji
-{ } packet // c
-u
-{@leftPad (
-) repeat char[  4294967296 ] A
-`a\`  ,
-}
-")).
-Eval vm_compute in ("<<<M3186>>>" ++ check (runes_of_ascii "// top
-root // c0
-packet
-    // c1
-u128 // c2a
-  // c2b
-{
-    // c3
-chars
-    // c4
-`it's` , }
-    // c7
-")).
-Eval vm_compute in ("<<<M2997>>>" ++ check (runes_of_ascii "packet A {
-  match k as n {
-    [1, 22, ""c c"", 4, 5, ""f"", 7, 8, ""i"", 10, 11, ""l""] : B
-    2 : C
-  },
-}")).
-Eval vm_compute in ("<<<M3732>>>" ++ check (runes_of_ascii "MetaData float {
-    float64 charz `
-    `,
-}
-
-root packet chars {
-    @rightPad('0')
-    Foo,
-}// c")).
-Eval vm_compute in ("<<<M2232>>>" ++ check (runes_of_ascii "options
-{ } options { BodyLength BodyLength= u16 Header= f64 ; u128 =
-    true
-    ; } // a // b")).
-Eval vm_compute in ("<<<M317>>>" ++ check (runes_of_ascii "packet
-crc { @lengthOf( falsey )Packet /// triple
-`crlf
-line`
-    // trailing space 
-    ,
-}
-")).
-Eval vm_compute in ("<<<M4355>>>" ++ check (runes_of_ascii "packet A {
+Eval vm_compute in ("<<<M1897>>>" ++ check (runes_of_ascii "packet A {
     match k as n {
-        [""a"", ""bb"", 007, ""d"", ""e""] : B,
+        [
+            1, 22, 007, 4, 5,
+            66, 7, 8
+        ] : B,
         2 : C,
     },
 }")).
-Eval vm_compute in ("<<<M1063>>>" ++ check (runes_of_ascii "root packet
-    calculatedFrom { uint8
-pack  @lengthOf(
-crc )//
-`// not a comment`
-    ,}
-")).
-Eval vm_compute in ("<<<M3272>>>" ++ check (runes_of_ascii "MetaData float
-// c
-{ float64 charz `
-` , } root packet chars { @rightPad ( '0' ) Foo , }")).
-Eval vm_compute in ("<<<M3304>>>" ++ check (runes_of_ascii "MetaData float { float64 charz `
-` , } root packet chars { @rightPad ( '0' ) Foo ,
-// c
+Eval vm_compute in ("<<<M1227>>>" ++ check (runes_of_ascii "root packet matchKey // c
+{ zchar[ 3 ] pack @calculatedFrom( ""a	b"" ) `doc` , } options { } MetaData A { int8 msg_type , }")).
+Eval vm_compute in ("<<<M1259>>>" ++ check (runes_of_ascii "root packet matchKey { zchar[ 3 ] pack @calculatedFrom( ""a	b"" ) `doc` , } options { } MetaData A // c
+{ int8 msg_type , }")).
+Eval vm_compute in ("<<<M2112>>>" ++ check (runes_of_ascii "packet  chars {
+} packet  MetaDataX  {
+@tag(42
+
+    )i16 string_
+	,
+
+    repeat
+
+    x // c
+  `say ""hi""`
+
+,
 }")).
-Eval vm_compute in ("<<<M3515>>>" ++ check (runes_of_ascii "packet chars { } packet MetaDataX { @tag( 42 ) i16 string_ , repeat x `say ""hi""` // c
-, }")).
-Eval vm_compute in ("<<<M1264>>>" ++ check (runes_of_ascii "
-MetaData i64_
-{ A crc`crlf
-line`, } options
-// " ++ [27880; 37322]%N ++ runes_of_ascii "
-// @lengthOf(
-{ int =
-    i8
-    }")).
-Eval vm_compute in ("<<<M1270>>>" ++ check (runes_of_ascii "MetaData
-T { uint16
-roots ,As lengthOf , As
-trueish
-    , char[]//
-Packet ,
-    } 	 ")).
-Eval vm_compute in ("<<<M3223>>>" ++ check (runes_of_ascii "packet metadata { Logon { A // c
-`" ++ [28040; 24687; 31867; 22411]%N ++ runes_of_ascii "` , tag o , } , zchar len `// not a comment` , }")).
-Eval vm_compute in ("<<<M2212>>>" ++ check (runes_of_ascii "options
- } options { BodyLength= u16 Header= f64 ; u128 =
-    true
-    ; } // a // b")).
-Eval vm_compute in ("<<<M3446>>>" ++ check (runes_of_ascii "packet o { repeat Logon uint8x , } options
-// c
-{ asx = zchar[ 3 ] stringy = '\x00' }")).
-Eval vm_compute in ("<<<M3957>>>" ++ check (runes_of_ascii "options {
-    rootA = i64
-    i64_ = true
-    matchKey = '\x00'
-    charz = false;
-}")).
-Eval vm_compute in ("<<<M2899>>>" ++ check (runes_of_ascii "packet A {
-  match k as n {
-    [""a"", ""bb"", ""c c"", ""d"", ""e""] : B,
-    2 : C
-  },
-}")).
-Eval vm_compute in ("<<<M3421>>>" ++ check (runes_of_ascii "MetaData body { i64 pack `it's` , } packet stringy { int16 calculatedFrom ,
-// c
-}")).
-Eval vm_compute in ("<<<M2915>>>" ++ check (runes_of_ascii "packet A {
-  match k as n {
-    [1, ""bb"", 007, ""d"", 5, ""f""] : B
-    2 : C
-  },
-}")).
-Eval vm_compute in ("<<<M3736>>>" ++ check (runes_of_ascii "
-packet  // " ++ [27880; 37322]%N ++ runes_of_ascii "
-
-  pack
-	{
-
-    //	t
-  repeat
-
-    zchar As,
-
-i16 
-roots
-
-,}")).
-Eval vm_compute in ("<<<M2905>>>" ++ check (runes_of_ascii "packet A {
-  match k as n {
-    [1, 22, ""c c"", 4, 5] : B,
-    2 : C
-  },
-}")).
-Eval vm_compute in ("<<<M4321>>>" ++ check (runes_of_ascii "
-options
-
-{ _x
-
-    =
-	0
-
-;
-    As
-
-=zchar[  4294967296	]
-    ;}  //x")).
-Eval vm_compute in ("<<<M2884>>>" ++ check (runes_of_ascii "packet A {
-  match k as n {
-    [1, 22, 007, 4] : B,
-    2 : C
-  },
-}")).
-Eval vm_compute in ("<<<M2935>>>" ++ check (runes_of_ascii "packet A { Inner { match k as n { [1,22,007,4,5,66,7] : B, }, }, }")).
-Eval vm_compute in ("<<<M922>>>" ++ check (runes_of_ascii "
-packet _x  {repeat int8
-    trueish
-,// packet A { u8 x, }
-}
-
-")).
-Eval vm_compute in ("<<<M770>>>" ++ check (runes_of_ascii "MetaData x
-    /// triple
-    {
-int32 // " ++ [27880; 37322]%N ++ runes_of_ascii "
-a1`say ""hi""`	, }
-")).
-Eval vm_compute in ("<<<M3571>>>" ++ check (runes_of_ascii "root packet P {
-    repeat string ss,
-    repeat u16 ns,
-}
-")).
-Eval vm_compute in ("<<<M3380>>>" ++ check (runes_of_ascii "packet x { @rightPad ( ) repeat roots
-// c
-Logon `doc` , }")).
-Eval vm_compute in ("<<<M1047>>>" ++ check (runes_of_ascii "options
-{ stringy =  7;crc = ""x y"";}
-MetaData f32a{ }
-")).
-Eval vm_compute in ("<<<M4471>>>" ++ check (runes_of_ascii "
+Eval vm_compute in ("<<<M2122>>>" ++ check (runes_of_ascii "
 
   packet
-
+metadata {
+Logon {
 A
-{
-	u8 x  , 
+`" ++ [28040; 24687; 31867; 22411]%N ++ runes_of_ascii "`  ,  tag
+	o
+
+,
+} 
+
     // c
-    u8  y  ,
+	  , zchar  len
+	`// not a comment`,
 	}
 
 ")).
-Eval vm_compute in ("<<<M1384>>>" ++ check (runes_of_ascii "options {Foo// trailing space 
-= // c
-""abc"" ; }
+Eval vm_compute in ("<<<M957>>>" ++ check (runes_of_ascii "packet A {
+    Inner {
+        u8 x `tab
+	x`,
+        Deep {
+            u8 y `tab
+	x`,
+        },
+    },
+}")).
+Eval vm_compute in ("<<<M907>>>" ++ check (runes_of_ascii "packet A {
+  match k as n {
+    [1, 22, ""c c"", 4, 5, ""f"", 7, 8, ""i"", 10, 11, ""l""] : B,
+    2 : C
+  },
+}")).
+Eval vm_compute in ("<<<M945>>>" ++ check (runes_of_ascii "packet A {
+    Inner {
+        u8 x `x
+`,
+        Deep {
+            u8 y `x
+`,
+        },
+    },
+}")).
+Eval vm_compute in ("<<<M461>>>" ++ check (runes_of_ascii "packet
+    // `tick` ""quote"" 'q'
+    crc
+// packet A { u8 x, }
+//	t
+{
+u32 a1 ,
+    // trailing ")).
+Eval vm_compute in ("<<<M1095>>>" ++ check (runes_of_ascii "// top
+root // c0
+packet // c1
+u128 // c2
+{ // c3
+chars // c4
+`it's` // c5
+, // c6
+} // c7
 ")).
-Eval vm_compute in ("<<<M3926>>>" ++ check (runes_of_ascii "  MetaData 
-uint8x  // trailing space 
-
-  {}
-
+Eval vm_compute in ("<<<M1186>>>" ++ check (runes_of_ascii "MetaData float { float64 // c
+charz `
+` , } root packet chars { @rightPad ( '0' ) Foo , }")).
+Eval vm_compute in ("<<<M1397>>>" ++ check (runes_of_ascii "packet
+// c
+chars { } packet MetaDataX { @tag( 42 ) i16 string_ , repeat x `say ""hi""` , }")).
+Eval vm_compute in ("<<<M1429>>>" ++ check (runes_of_ascii "packet chars { } packet MetaDataX { @tag( 42 ) i16 string_ , repeat x `say ""hi""` ,
+// c
+}")).
+Eval vm_compute in ("<<<M1127>>>" ++ check (runes_of_ascii "packet metadata
+// c
+{ Logon { A `" ++ [28040; 24687; 31867; 22411]%N ++ runes_of_ascii "` , tag o , } , zchar len `// not a comment` , }")).
+Eval vm_compute in ("<<<M1376>>>" ++ check (runes_of_ascii "packet o { repeat Logon uint8x , } options { asx = zchar[ 3 ] stringy = '\x00' } // c
 ")).
-Eval vm_compute in ("<<<M168>>>" ++ check (runes_of_ascii "root packet leftPad
-    { f32a	tag ,
+Eval vm_compute in ("<<<M1364>>>" ++ check (runes_of_ascii "packet o { repeat Logon uint8x , } options { asx = zchar[ // c
+3 ] stringy = '\x00' }")).
+Eval vm_compute in ("<<<M839>>>" ++ check (runes_of_ascii "packet A {
+  match k as n {
+    [1, ""bb"", 007, ""d"", 5, ""f"", 7] : B
+    2 : C
+  },
+}")).
+Eval vm_compute in ("<<<M1325>>>" ++ check (runes_of_ascii "MetaData body { i64 pack `it's` , } packet stringy { // c
+int16 calculatedFrom , }")).
+Eval vm_compute in ("<<<M834>>>" ++ check (runes_of_ascii "packet A {
+  match k as n {
+    [1, 22, 007, 4, 5, 66, 7] : B,
+    2 : C
+  },
+}")).
+Eval vm_compute in ("<<<M2086>>>" ++ check (runes_of_ascii "packet A {
+    match k as n {
+        [1, 22] : B,
+        2 : C,
+    },
+}")).
+Eval vm_compute in ("<<<M161>>>" ++ check (runes_of_ascii "// trailing space 
+packet
+Header { // c
+repeat  char[] MetaDataX , }")).
+Eval vm_compute in ("<<<M775>>>" ++ check (runes_of_ascii "packet A {
+  match k as n {
+    [""a"", ""bb""] : B,
+    2 : C
+  },
+}")).
+Eval vm_compute in ("<<<M144>>>" ++ check (runes_of_ascii "MetaData Pad{	x_y_z
+    // packet A { u8 x, }
+    T ,
     }
 ")).
-Eval vm_compute in ("<<<M2696>>>" ++ check (runes_of_ascii "; f32 , } true repeat u16 string lengthOf")).
-Eval vm_compute in ("<<<M3202>>>" ++ check (runes_of_ascii "root packet u128 { chars `it's` ,
+Eval vm_compute in ("<<<M1285>>>" ++ check (runes_of_ascii "packet x { @rightPad (
+// c
+) repeat roots Logon `doc` , }")).
+Eval vm_compute in ("<<<M1647>>>" ++ check (runes_of_ascii "
+root  packet
+
+A
+
+    { u8
+
+    x
+`a
+
+b`
+,
+	}
+
+")).
+Eval vm_compute in ("<<<M1692>>>" ++ check (runes_of_ascii "root packet P {
+    repeat char cs,
+    u8 x,
+}")).
+Eval vm_compute in ("<<<M2015>>>" ++ check (runes_of_ascii "MetaData float {
+    f64 u8x `
+        `,
+}")).
+Eval vm_compute in ("<<<M1113>>>" ++ check (runes_of_ascii "root packet u128 { chars `it's` ,
 // c
 }")).
-Eval vm_compute in ("<<<M4297>>>" ++ check (runes_of_ascii "packet	int{
-
-    }	packet 
-roots{
-	}")).
-Eval vm_compute in ("<<<M3856>>>" ++ check (runes_of_ascii "
-packet
-
-A 
-{
-	u8
-x 
-`tab
-	x` ,  }
-")).
-Eval vm_compute in ("<<<M2585>>>" ++ check (runes_of_ascii "packet A { string x @lengthOf(y) }")).
-Eval vm_compute in ("<<<M21>>>" ++ check (runes_of_ascii "//	t
-packet Packet{ u64 tag
-,}
-")).
-Eval vm_compute in ("<<<M2735>>>" ++ check (runes_of_ascii ") char[] ] @leftPad ; f64 uint8")).
-Eval vm_compute in ("<<<M3117>>>" ++ check (runes_of_ascii "packet A {
- u8 x `d" ++ [11]%N ++ runes_of_ascii "`, // c" ++ [11]%N ++ runes_of_ascii "
-}")).
-Eval vm_compute in ("<<<M2822>>>" ++ check (runes_of_ascii "sa;6G`'h:_2TsaQbH%GtGhb$f\i""")).
-Eval vm_compute in ("<<<M792>>>" ++ check (runes_of_ascii "options { pack= int32 ;}
-")).
-Eval vm_compute in ("<<<M3254>>>" ++ check (runes_of_ascii "root // c
-packet pack { }")).
-Eval vm_compute in ("<<<M4606>>>" ++ check (runes_of_ascii "// c" ++ [11]%N ++ runes_of_ascii "
-    	packet A {
-} ")).
-Eval vm_compute in ("<<<M730>>>" ++ check (runes_of_ascii "root	packet f32a { }
-")).
-Eval vm_compute in ("<<<M3478>>>" ++ check (runes_of_ascii "MetaData o { } // c
-")).
-Eval vm_compute in ("<<<M3146>>>" ++ check (runes_of_ascii "// c x
+Eval vm_compute in ("<<<M244>>>" ++ check (runes_of_ascii "
+packet/// triple
+packetx {
+} // " ++ [27880; 37322]%N)).
+Eval vm_compute in ("<<<M760>>>" ++ check ([17; 65533; 65533]%N ++ runes_of_ascii "Ab" ++ [65533]%N ++ runes_of_ascii ";A" ++ [65533; 65533; 65533; 65533]%N ++ runes_of_ascii "B" ++ [6; 65533; 1016; 65533]%N ++ runes_of_ascii "L" ++ [65533; 65533]%N ++ runes_of_ascii "33" ++ [65533; 65533]%N ++ runes_of_ascii "I+" ++ [65533; 65533]%N ++ runes_of_ascii "&" ++ [65533]%N ++ runes_of_ascii "P")).
+Eval vm_compute in ("<<<M1072>>>" ++ check (runes_of_ascii "MetaData M {
+}// c
+options {}")).
+Eval vm_compute in ("<<<M1167>>>" ++ check (runes_of_ascii "root packet // c
+pack { }")).
+Eval vm_compute in ("<<<M507>>>" ++ check (runes_of_ascii "root packet tag { }")).
+Eval vm_compute in ("<<<M1007>>>" ++ check (runes_of_ascii "// c" ++ [8232]%N ++ runes_of_ascii "
 packet A {
 }")).
-Eval vm_compute in ("<<<M3090>>>" ++ check (runes_of_ascii "packet A {
-}
-// c" ++ [8202]%N)).
-Eval vm_compute in ("<<<M2569>>>" ++ check (runes_of_ascii "packet A { u8 x }")).
-Eval vm_compute in ("<<<M774>>>" ++ check (runes_of_ascii "options
-    { }
-")).
-Eval vm_compute in ("<<<M2634>>>" ++ check (runes_of_ascii "packet A { } 1")).
-Eval vm_compute in ("<<<M308>>>" ++ check (runes_of_ascii "options{
-}")).
-Eval vm_compute in ("<<<M2835>>>" ++ check (runes_of_ascii "char[ i64")).
-Eval vm_compute in ("<<<M86>>>" ++ check (runes_of_ascii "
-// c
-")).
-Eval vm_compute in ("<<<M2436>>>" ++ check (runes_of_ascii "zchar")).
-Eval vm_compute in ("<<<M3800>>>" ++ check (runes_of_ascii "//
- 
-")).
-Eval vm_compute in ("<<<M333>>>" ++ check (runes_of_ascii "
-
-")).
-Eval vm_compute in ("<<<M2813>>>" ++ check (runes_of_ascii "t^h")).
-Eval vm_compute in ("<<<M2497>>>" ++ check (runes_of_ascii "/")).
+Eval vm_compute in ("<<<M1004>>>" ++ check (runes_of_ascii "packet A {
+}// c" ++ [8232]%N)).
+Eval vm_compute in ("<<<M745>>>" ++ check (runes_of_ascii "cJ<op-O(/i*")).
+Eval vm_compute in ("<<<M1010>>>" ++ check (runes_of_ascii "// c" ++ [8233]%N)).
